@@ -108,6 +108,19 @@ fn emit_b11(rec: &mut Rec, s: &str, class_prefix: &str) -> Option<SignedRawBolt1
 	parsed
 }
 
+/// the semantic layer: `Bolt11Invoice::from_signed` vs the model's `fromSigned`, the ECDSA verdict
+/// (`check_signature`, trusted dependency) being handed to the model as an input
+fn emit_sem(rec: &mut Rec, s: &str, signed: &SignedRawBolt11Invoice, class_prefix: &str) {
+	let sig_valid = match guarded(AssertUnwindSafe(|| signed.check_signature())) { Ok(v) => v, Err(p) => { rec.oracle_fail(format!("check_signature panicked ({}): {}", p, s)); return; } };
+	let ans = match guarded(AssertUnwindSafe(|| Bolt11Invoice::from_signed(signed.clone()))) {
+		Err(p) => { rec.oracle_fail(format!("from_signed panicked ({}): {}", p, s)); format!("panic {}", p) },
+		Ok(Ok(_)) => "ok".to_string(),
+		Ok(Err(e)) => format!("err {}", err_name(&e)),
+	};
+	let class = format!("{}sem:{}", class_prefix, ans.replace(' ', ":"));
+	rec.case(&format!("sem {} {}", hex(s.as_bytes()), if sig_valid { 1 } else { 0 }), &ans, &class, true);
+}
+
 fn rand_pubkey(rng: &mut Rng, secp: &Secp256k1<bitcoin::secp256k1::All>) -> PublicKey {
 	loop { if let Ok(sk) = SecretKey::from_slice(&rng.bytes32()) { return PublicKey::from_secret_key(secp, &sk); } }
 }
@@ -229,6 +242,7 @@ fn classify_mutant(rec: &mut Rec, ctx: &mut B11, orig: &Bolt11Invoice, s: &str, 
 		// a checksum failure here would be a bug of the harness' own checksum code
 		if let Err(Bolt11ParseError::Bech32Error(e)) = s.parse::<SignedRawBolt11Invoice>() { if format!("{:?}", e).contains("Checksum") { rec.oracle_fail(format!("harness checksum rejected: {}", s)); } }
 		ctx.outcomes[0] += 1; return; }, Some(x) => x };
+	emit_sem(rec, s, &signed, "mut2:");
 	match guarded(AssertUnwindSafe(|| Bolt11Invoice::from_signed(signed))) {
 		Err(p) => rec.oracle_fail(format!("from_signed panicked ({}): {}", p, s)),
 		Ok(Err(_)) => ctx.outcomes[0] += 1,
@@ -256,7 +270,7 @@ fn run_b11(args: &Args) {
 		roundtrip_oracle(&mut rec, &inv, &want, &ctx);
 		let s = inv.to_string();
 		ctx.n_ok += 1;
-		if emit_b11(&mut rec, &s, "built:").is_none() { rec.oracle_fail(format!("built invoice rejected: {}", s)); continue; }
+		match emit_b11(&mut rec, &s, "built:") { None => { rec.oracle_fail(format!("built invoice rejected: {}", s)); continue; }, Some(signed) => emit_sem(&mut rec, &s, &signed, "built:") }
 		if rng.chance(1, 4) { let up = s.to_uppercase(); emit_b11(&mut rec, &up, "upper:"); }
 		let (hrp, syms) = split(&s);
 		// checksum tie: the six symbols the real encoder produced
@@ -361,10 +375,52 @@ fn run_b11(args: &Args) {
 		if rng.chance(1, 12) { s = s.to_uppercase(); }
 		let parsed = emit_b11(&mut rec, &s, "synth:");
 		if let Some(signed) = parsed {
+			emit_sem(&mut rec, &s, &signed, "synth:");
 			// no panic in the semantic layer either
 			if let Err(p) = guarded(AssertUnwindSafe(|| { let _ = Bolt11Invoice::from_signed(signed.clone()).map(|i| (i.amount_milli_satoshis(), i.expiry_time(), i.route_hints(), i.fallback_addresses(), i.get_payee_pub_key())); })) {
 				rec.oracle_fail(format!("from_signed/accessors panicked ({}): {}", p, s));
 			}
+		}
+	}
+	// (4b) semantic layer: well-formed raw invoices with missing / duplicated mandatory fields, feature
+	// bit variants, imprecise pico amounts, wrong signer; built from the public structs and really signed
+	let n_sem = 400 * scale;
+	for _ in 0..n_sem {
+		let mut tf: Vec<TaggedField> = vec![];
+		let n_p = *rng.pick(&[1usize, 1, 1, 1, 0, 2]);
+		let n_d = *rng.pick(&[1usize, 1, 1, 1, 0, 2]);
+		let n_s = *rng.pick(&[1usize, 1, 1, 1, 0, 2]);
+		for _ in 0..n_p { tf.push(TaggedField::PaymentHash(PaymentHash(rng.bytes32()))); }
+		for _ in 0..n_d { if rng.chance(1, 2) { tf.push(TaggedField::Description(Description::new(rand_string(&mut rng, 20)).unwrap())); } else { tf.push(TaggedField::DescriptionHash(Sha256(sha256::Hash::from_byte_array(rng.bytes32())))); } }
+		for _ in 0..n_s { tf.push(TaggedField::PaymentSecret(PaymentSecret(rng.bytes32()))); }
+		let n_f = *rng.pick(&[1usize, 1, 1, 1, 1, 0, 2]);
+		for _ in 0..n_f {
+			let mut flags = vec![0u8; rng.below(14) as usize + 2];
+			let nbits = flags.len() * 8;
+			let set = |b: usize, fl: &mut Vec<u8>| { if b < nbits { fl[b / 8] |= 1 << (b % 8); } };
+			match rng.below(8) { 0 => {}, 1 => set(15, &mut flags), _ => set(14, &mut flags) }
+			if rng.chance(1, 2) { set(8, &mut flags); }
+			if rng.chance(1, 3) { set(*rng.pick(&[16usize, 17, 48, 49, 56, 57, 9]), &mut flags); }
+			if rng.chance(1, 4) { let b = rng.below(nbits as u64) as usize; set(b, &mut flags); }
+			if rng.chance(1, 6) { let b = 2 * rng.below(nbits as u64 / 2) as usize; set(b, &mut flags); }
+			tf.push(TaggedField::Features(lightning::types::features::Bolt11InvoiceFeatures::from_le_bytes(flags)));
+		}
+		if rng.chance(1, 3) { tf.push(TaggedField::ExpiryTime(ExpiryTime::from_seconds(rng.below(100000)))); }
+		let foreign = rand_pubkey(&mut rng, &ctx.secp);
+		if rng.chance(1, 4) { tf.push(TaggedField::PayeePubKey(PayeePubKey(if rng.chance(1, 2) { ctx.pk } else { foreign }))); }
+		// shuffle
+		for i in (1..tf.len()).rev() { let j = rng.below(i as u64 + 1) as usize; tf.swap(i, j); }
+		let hrp = RawHrp { currency: Currency::Bitcoin,
+			raw_amount: if rng.chance(1, 4) { None } else { Some(match rng.below(4) { 0 => rng.below(100), 1 => 10 * rng.below(1000), 2 => 2501, _ => rng.next() % 1_000_000 }) },
+			si_prefix: None };
+		let hrp = RawHrp { si_prefix: if hrp.raw_amount.is_some() && !rng.chance(1, 6) { Some(*rng.pick(&[SiPrefix::Milli, SiPrefix::Micro, SiPrefix::Nano, SiPrefix::Pico, SiPrefix::Pico])) } else { None }, ..hrp };
+		let raw = RawBolt11Invoice { hrp, data: RawDataPart { timestamp: PositiveTimestamp::from_unix_timestamp(rng.below(MAX_TIMESTAMP)).unwrap(), tagged_fields: tf.into_iter().map(RawTaggedField::KnownSemantics).collect() } };
+		let wrong_sig = rng.chance(1, 8);
+		let signed = raw.sign::<_, ()>(|h| Ok(if wrong_sig { ctx.secp.sign_ecdsa_recoverable(&Message::from_digest([7; 32]), &ctx.sk) } else { ctx.secp.sign_ecdsa_recoverable(h, &ctx.sk) })).unwrap();
+		let s = signed.to_string();
+		match emit_b11(&mut rec, &s, "semgen:") {
+			Some(p) => emit_sem(&mut rec, &s, &p, "semgen:"),
+			None => rec.oracle_fail(format!("serialised raw invoice does not parse back: {}", s)),
 		}
 	}
 	// (5) arbitrary strings never panic
@@ -467,18 +523,1532 @@ fn hrp_case(rec: &mut Rec, h: &str) {
 	rec.case(&format!("hrp {}", hex(h.as_bytes())), &ans, &class, true);
 }
 
-fn run_b12(args: &Args) {
-	let mut rec = Rec::new(&args.out, "c18b12");
-	rec.notes.insert("rule".into(), "placeholder".into());
-	let _ = args;
-	rec.finish();
+/// BOLT-12 half (model c18b12)
+#[allow(unused_imports, dead_code)]
+mod b12 {
+	//! C18 (BOLT-12 half) — offers / invoice requests / invoices / refunds / static invoices of the real code.
+	//! ops:  merkle <tlv-hex>                               -> <root-hex>     (hook offers::merkle_root)
+	//!       digest <tag-hex> <tlv-hex>                     -> <digest-hex>   (hook offers::tagged_digest)
+	//!       mverify <r|p> <base-key> <iv> <metadata> <tlv> -> ok | err       (hook offers::verify_metadata, non key-deriving lengths)
+	//!       mhmac <r|p> <base-key> <iv> <metadata> <tlv>   -> <secret-hex>   (hook offers::verify_metadata, key-deriving lengths)
+	//! plus implementation-only oracles (round trips, single-bit mutations of signed streams, metadata
+	//! negatives, no-panic fuzzing of the public parsers), counted in the stats notes.
+	use ldk_verif_harness::common::*;
+
+	use bitcoin::hashes::hmac::{Hmac, HmacEngine};
+	use bitcoin::hashes::{sha256, Hash, HashEngine};
+	use bitcoin::secp256k1::{self, Keypair, PublicKey, Secp256k1, SecretKey};
+	use bitcoin::Network;
+	use core::time::Duration;
+	use lightning::blinded_path::message::BlindedMessagePath;
+	use lightning::blinded_path::payment::{BlindedPayInfo, BlindedPaymentPath};
+	use lightning::blinded_path::BlindedHop;
+	use lightning::ln::channelmanager::PaymentId;
+	use lightning::ln::inbound_payment::ExpandedKey;
+	use lightning::ln::verif_hooks::offers as b12_vho;
+	use lightning::offers::invoice::{Bolt12Invoice, UnsignedBolt12Invoice};
+	use lightning::offers::invoice_request::{InvoiceRequest, InvoiceRequestVerifiedFromOffer, UnsignedInvoiceRequest};
+	use lightning::offers::nonce::Nonce;
+	use lightning::offers::offer::{Amount, MetadataStrategy, Offer, OfferBuilder, Quantity};
+	use lightning::offers::parse::Bolt12SemanticError;
+	use lightning::offers::refund::{Refund, RefundBuilder};
+	use lightning::offers::static_invoice::{StaticInvoice, StaticInvoiceBuilder, UnsignedStaticInvoice};
+	use lightning::onion_message::dns_resolution::HumanReadableName;
+	use lightning::sign::EntropySource;
+	use lightning::types::features::BlindedHopFeatures;
+	use lightning::types::payment::PaymentHash;
+	use lightning::util::ser::Writeable;
+	use std::collections::{BTreeMap, BTreeSet};
+	use std::panic::AssertUnwindSafe as B12Aus;
+
+	const B12_MAX_MSAT: u64 = 21_000_000 * 100_000_000 * 1000;
+	const B12_NETS: [Network; 4] = [Network::Bitcoin, Network::Testnet, Network::Signet, Network::Regtest];
+	const B12_TAG_INVREQ: &'static str = lightning::offers::invoice_request::SIGNATURE_TAG;
+	const B12_TAG_INVOICE: &'static str = lightning::offers::invoice::SIGNATURE_TAG;
+	const B12_TAG_STATIC: &'static str = lightning::offers::static_invoice::SIGNATURE_TAG;
+	const B12_IV_OFFER_META: &[u8; 16] = b"LDK Offer ~~~~~~";
+	const B12_IV_OFFER_KEYS: &[u8; 16] = b"LDK Offer v2~~~~";
+	const B12_IV_INVREQ: &[u8; 16] = b"LDK Invreq ~~~~~";
+	const B12_IV_REFUND_META: &[u8; 16] = b"LDK Refund ~~~~~";
+	const B12_IV_REFUND_KEYS: &[u8; 16] = b"LDK Refund v2~~~";
+
+	// ---------------------------------------------------------------------------------------------
+	// state shared by the phases
+	// ---------------------------------------------------------------------------------------------
+
+	struct B12St {
+		secp: Secp256k1<secp256k1::All>,
+		thorough: bool,
+		pks: Vec<PublicKey>,
+		dummy_pk: PublicKey,
+		bitflips: u64,
+		bitflip_full_sweeps: u64,
+		verify_neg: u64,
+		verify_pos: u64,
+		roundtrips: u64,
+		no_panic: u64,
+		no_panic_parsed_ok: u64,
+		builder_rejects: u64,
+		builder_errs: BTreeMap<String, u64>,
+		built: BTreeMap<&'static str, u64>,
+		sweeps_left: BTreeMap<&'static str, u32>,
+		probes: BTreeMap<String, String>,
+		corpus: Vec<Vec<u8>>,
+		corpus_set: std::collections::HashSet<Vec<u8>>,
+		sig_range_accepts: u64,
+		str_corpus: Vec<String>,
+	}
+
+	impl B12St {
+		fn b12_built(&mut self, k: &'static str) { *self.built.entry(k).or_insert(0) += 1; }
+		fn b12_builder_err(&mut self, what: &str, e: &Bolt12SemanticError) { *self.builder_errs.entry(format!("{}:{:?}", what, e)).or_insert(0) += 1; }
+	}
+
+	struct B12Entropy([u8; 32]);
+	impl EntropySource for B12Entropy { fn get_secure_random_bytes(&self) -> [u8; 32] { self.0 } }
+
+	// ---------------------------------------------------------------------------------------------
+	// tiny TLV toolkit (independent of the library)
+	// ---------------------------------------------------------------------------------------------
+
+	fn b12_put_bigsize(out: &mut Vec<u8>, v: u64) {
+		if v < 0xfd { out.push(v as u8); }
+		else if v <= 0xffff { out.push(0xfd); out.extend_from_slice(&(v as u16).to_be_bytes()); }
+		else if v <= 0xffff_ffff { out.push(0xfe); out.extend_from_slice(&(v as u32).to_be_bytes()); }
+		else { out.push(0xff); out.extend_from_slice(&v.to_be_bytes()); }
+	}
+
+	fn b12_get_bigsize(b: &[u8], p: &mut usize) -> Option<u64> {
+		let f = *b.get(*p)?; *p += 1;
+		let n = match f { 0xfd => 2, 0xfe => 4, 0xff => 8, _ => return Some(f as u64) };
+		if *p + n > b.len() { return None; }
+		let mut v = 0u64;
+		for i in 0..n { v = (v << 8) | b[*p + i] as u64; }
+		*p += n;
+		Some(v)
+	}
+
+	#[derive(Clone, Debug)]
+	struct B12Tlv { typ: u64, start: usize, lstart: usize, vstart: usize, end: usize }
+
+	/// Split a well-formed TLV stream into records (`None` when it is not well formed).
+	fn b12_split(b: &[u8]) -> Option<Vec<B12Tlv>> {
+		let mut p = 0usize; let mut out = vec![];
+		while p < b.len() {
+			let start = p;
+			let typ = b12_get_bigsize(b, &mut p)?;
+			let lstart = p;
+			let len = b12_get_bigsize(b, &mut p)?;
+			let vstart = p;
+			let end = vstart.checked_add(usize::try_from(len).ok()?)?;
+			if end > b.len() { return None; }
+			p = end;
+			out.push(B12Tlv { typ, start, lstart, vstart, end });
+		}
+		Some(out)
+	}
+
+	/// Concatenation of the records whose type satisfies `keep`.
+	fn b12_select<F: Fn(u64) -> bool>(b: &[u8], keep: F) -> Vec<u8> {
+		let mut out = vec![];
+		for r in b12_split(b).expect("builder output is a well-formed TLV stream") { if keep(r.typ) { out.extend_from_slice(&b[r.start..r.end]); } }
+		out
+	}
+
+	fn b12_record(typ: u64, value: &[u8]) -> Vec<u8> {
+		let mut o = vec![]; b12_put_bigsize(&mut o, typ); b12_put_bigsize(&mut o, value.len() as u64); o.extend_from_slice(value); o
+	}
+
+	/// Where a bit offset lies: "type=<t>/<type|len|value>".
+	fn b12_locate(b: &[u8], bit: usize) -> String {
+		let byte = bit / 8;
+		match b12_split(b) {
+			Some(recs) => { for r in recs { if byte >= r.start && byte < r.end { let part = if byte < r.lstart { "type" } else if byte < r.vstart { "len" } else { "value" }; return format!("type={}/{}", r.typ, part); } } "?".into() },
+			None => "?".into(),
+		}
+	}
+
+	fn b12_is_sig(t: u64) -> bool { t >= 240 && t <= 1000 }
+
+	// reference merkle root, written from the BOLT-12 text (recursive definition, not the in-place loop)
+	fn b12_sha(parts: &[&[u8]]) -> [u8; 32] { let mut e = sha256::Hash::engine(); for p in parts { e.input(p); } sha256::Hash::from_engine(e).to_byte_array() }
+	fn b12_tagged(tag: &[u8], parts: &[&[u8]]) -> [u8; 32] {
+		let t = b12_sha(&[tag]);
+		let mut e = sha256::Hash::engine(); e.input(&t); e.input(&t); for p in parts { e.input(p); }
+		sha256::Hash::from_engine(e).to_byte_array()
+	}
+	fn b12_branch(a: &[u8; 32], b: &[u8; 32]) -> [u8; 32] { if a < b { b12_tagged(b"LnBranch", &[a, b]) } else { b12_tagged(b"LnBranch", &[b, a]) } }
+	fn b12_tree(l: &[[u8; 32]]) -> [u8; 32] {
+		if l.len() == 1 { return l[0]; }
+		let mut p = 1usize; while p * 2 < l.len() { p *= 2; }
+		b12_branch(&b12_tree(&l[..p]), &b12_tree(&l[p..]))
+	}
+	fn b12_merkle_ref(b: &[u8]) -> Option<[u8; 32]> {
+		let recs = b12_split(b)?;
+		let first = recs.first()?;
+		let mut nonce_tag = b"LnNonce".to_vec(); nonce_tag.extend_from_slice(&b[first.start..first.end]);
+		let mut leaves = vec![];
+		for r in recs.iter().filter(|r| !b12_is_sig(r.typ)) {
+			let leaf = b12_tagged(b"LnLeaf", &[&b[r.start..r.end]]);
+			let nonce = b12_tagged(&nonce_tag, &[&b[r.start..r.lstart]]);
+			leaves.push(b12_branch(&leaf, &nonce));
+		}
+		if leaves.is_empty() { return None; }
+		Some(b12_tree(&leaves))
+	}
+
+	fn b12_hmac(key: &[u8; 32], parts: &[&[u8]]) -> [u8; 32] {
+		let mut e = HmacEngine::<sha256::Hash>::new(key);
+		for p in parts { e.input(p); }
+		Hmac::<sha256::Hash>::from_engine(e).to_byte_array()
+	}
+	/// nonce ‖ HMAC(key, iv ‖ nonce ‖ records ‖ [1;16] ‖ [3;16])
+	fn b12_meta_recipient(base: &[u8; 32], iv: &[u8; 16], nonce: &[u8; 16], tlv: &[u8]) -> Vec<u8> {
+		let mut m = nonce.to_vec(); m.extend_from_slice(&b12_hmac(base, &[iv, nonce, tlv, &[1u8; 16], &[3u8; 16]])); m
+	}
+	/// enc_payment_id ‖ nonce ‖ HMAC(key, iv ‖ nonce ‖ records ‖ [1;16] ‖ [4;16] ‖ enc_payment_id)
+	fn b12_meta_payer(base: &[u8; 32], iv: &[u8; 16], enc: &[u8; 32], nonce: &[u8; 16], tlv: &[u8]) -> Vec<u8> {
+		let mut m = enc.to_vec(); m.extend_from_slice(nonce); m.extend_from_slice(&b12_hmac(base, &[iv, nonce, tlv, &[1u8; 16], &[4u8; 16], enc])); m
+	}
+	fn b12_secret_recipient(base: &[u8; 32], iv: &[u8; 16], nonce: &[u8; 16], tlv: &[u8]) -> [u8; 32] { b12_hmac(base, &[iv, nonce, tlv, &[2u8; 16], &[3u8; 16]]) }
+	fn b12_secret_payer(base: &[u8; 32], iv: &[u8; 16], enc: &[u8; 32], nonce: &[u8; 16], tlv: &[u8]) -> [u8; 32] { b12_hmac(base, &[iv, nonce, tlv, &[2u8; 16], &[4u8; 16], enc]) }
+
+	// ---------------------------------------------------------------------------------------------
+	// op emitters
+	// ---------------------------------------------------------------------------------------------
+
+	fn b12_emit_merkle(rec: &mut Rec, class: &str, bytes: &[u8]) -> Option<[u8; 32]> {
+		let op = format!("merkle {}", hex(bytes));
+		match guarded(B12Aus(|| b12_vho::merkle_root(bytes))) {
+			Ok(root) => {
+				match b12_merkle_ref(bytes) {
+					Some(r) if r == root => {},
+					other => rec.oracle_fail(format!("merkle_root differs from the BOLT-12 reference computation: hook={} ref={:?} bytes={}", hex(&root), other.map(|r| hex(&r)), hex(bytes))),
+				}
+				rec.case(&op, &hex(&root), class, true);
+				Some(root)
+			},
+			Err(p) => { rec.oracle_fail(format!("panic in merkle_root on a well-formed stream: {} bytes={}", p, hex(bytes))); rec.case(&op, &format!("panic {}", p.replace('\n', " ")), &format!("{}:panic", class), true); None },
+		}
+	}
+
+	fn b12_emit_digest(rec: &mut Rec, class: &str, tag: &'static str, bytes: &[u8]) -> Option<[u8; 32]> {
+		let op = format!("digest {} {}", hex(tag.as_bytes()), hex(bytes));
+		match guarded(B12Aus(|| b12_vho::tagged_digest(tag, bytes))) {
+			Ok(d) => {
+				if let Some(root) = b12_merkle_ref(bytes) { let r = b12_tagged(tag.as_bytes(), &[&root]); if r != d { rec.oracle_fail(format!("tagged_digest differs from reference: hook={} ref={} tag={} bytes={}", hex(&d), hex(&r), tag, hex(bytes))); } }
+				rec.case(&op, &hex(&d), class, true);
+				Some(d)
+			},
+			Err(p) => { rec.oracle_fail(format!("panic in tagged_digest on a well-formed stream: {} bytes={}", p, hex(bytes))); rec.case(&op, &format!("panic {}", p.replace('\n', " ")), &format!("{}:panic", class), true); None },
+		}
+	}
+
+	/// `mverify` op (metadata length must not be a key-deriving one). `expect`: what the impl oracle demands.
+	fn b12_emit_mverify(rec: &mut Rec, st: &B12St, class: &str, payer: bool, ek: &ExpandedKey, iv: &[u8; 16], meta: &[u8], tlv: &[u8], expect: Option<bool>) {
+		if (!payer && meta.len() == 16) || (payer && meta.len() == 48) { return; }
+		let base = b12_vho::offers_base_key(ek);
+		let op = format!("mverify {} {} {} {} {}", if payer { "p" } else { "r" }, hex(&base), hex(iv), hex(meta), hex(tlv));
+		let pk = st.dummy_pk;
+		let (ans, ok) = match guarded(B12Aus(|| b12_vho::verify_metadata(payer, meta, ek, iv, pk, tlv))) {
+			Ok(Ok(None)) => ("ok".to_string(), Some(true)),
+			Ok(Ok(Some(_))) => { rec.oracle_fail(format!("verify_metadata derived keys for a non key-deriving metadata length: {}", op)); ("ok".to_string(), Some(true)) },
+			Ok(Err(())) => ("err".to_string(), Some(false)),
+			Err(p) => { rec.oracle_fail(format!("panic in verify_metadata: {} op={}", p, op)); (format!("panic {}", p.replace('\n', " ")), None) },
+		};
+		if let (Some(e), Some(o)) = (expect, ok) { if e != o { rec.oracle_fail(format!("metadata verification answered {} where {} is required ({}): {}", ans, if e { "ok" } else { "err" }, class, op)); } }
+		rec.case(&op, &ans, class, true);
+	}
+
+	/// `mhmac` op: key-deriving metadata; `secret` is the harness' own derivation, its public key is handed in.
+	fn b12_emit_mhmac(rec: &mut Rec, st: &mut B12St, class: &str, payer: bool, ek: &ExpandedKey, iv: &[u8; 16], meta: &[u8], tlv: &[u8], secret: &[u8; 32], expect_pk: Option<PublicKey>) {
+		debug_assert!((!payer && meta.len() == 16) || (payer && meta.len() == 48));
+		let sk = match SecretKey::from_slice(secret) { Ok(sk) => sk, Err(_) => { rec.discarded += 1; return; } };
+		let pk = PublicKey::from_secret_key(&st.secp, &sk);
+		if let Some(e) = expect_pk { if e != pk { rec.oracle_fail(format!("derived signing pubkey of a built object is not the public key of the harness-computed HMAC secret ({}): meta={} tlv={}", class, hex(meta), hex(tlv))); return; } }
+		let base = b12_vho::offers_base_key(ek);
+		let op = format!("mhmac {} {} {} {} {}", if payer { "p" } else { "r" }, hex(&base), hex(iv), hex(meta), hex(tlv));
+		let ans = match guarded(B12Aus(|| b12_vho::verify_metadata(payer, meta, ek, iv, pk, tlv))) {
+			Ok(Ok(Some(s))) => { if &s != secret { rec.oracle_fail(format!("verify_metadata returned another secret than HMAC(key, iv‖nonce‖records‖[2;16]‖…): {}", op)); } hex(&s) },
+			Ok(Ok(None)) => { rec.oracle_fail(format!("verify_metadata returned no keys for a key-deriving metadata length: {}", op)); "nokeys".to_string() },
+			Ok(Err(())) => { rec.oracle_fail(format!("verify_metadata rejected correctly derived key material: {}", op)); "err".to_string() },
+			Err(p) => { rec.oracle_fail(format!("panic in verify_metadata: {} op={}", p, op)); format!("panic {}", p.replace('\n', " ")) },
+		};
+		rec.case(&op, &ans, class, true);
+		// negative: another public key must be refused
+		let wrong = st.dummy_pk;
+		if wrong != pk {
+			match guarded(B12Aus(|| b12_vho::verify_metadata(payer, meta, ek, iv, wrong, tlv))) {
+				Ok(Err(())) => {},
+				other => rec.oracle_fail(format!("verify_metadata accepted a signing pubkey that is not the derived one ({:?}): {}", other.map(|r| r.map(|o| o.is_some())), op)),
+			}
+			st.verify_neg += 1;
+		}
+	}
+
+	// ---------------------------------------------------------------------------------------------
+	// generators
+	// ---------------------------------------------------------------------------------------------
+
+	fn b12_vlen(rng: &mut Rng, max: u64) -> u64 {
+		let v = match rng.below(8) {
+			0 => 0,
+			1 => *rng.pick(&[1u64, 2, 32, 33, 64, 252, 253, 254, 255, 256, 300]),
+			2 | 3 => rng.below(8),
+			4 | 5 => rng.below(70),
+			_ => rng.below(max + 1),
+		};
+		v.min(max)
+	}
+
+	/// Well-formed TLV stream: `n` records with strictly ascending types from 0..240 and 1001..5e9, plus
+	/// `nsig` records in the signature range 240..=1000 (never in first position).
+	fn b12_synth_stream(rng: &mut Rng, n: usize, nsig: usize, max_vlen: u64) -> Vec<u8> {
+		let mut types: BTreeSet<u64> = BTreeSet::new();
+		let mut n_low = match rng.below(4) { 0 => n, 1 => 0, _ => rng.below(n as u64 + 1) as usize };
+		if nsig > 0 { n_low = n_low.max(1); }
+		n_low = n_low.min(n).min(200);
+		while types.len() < n_low { types.insert(rng.below(240)); }
+		while types.len() < n {
+			let t = match rng.below(6) {
+				0 => rng.range(1001, 0xffff),
+				1 => rng.range(0x1_0000, 0xffff_ffff),
+				2 => rng.range(0x1_0000_0000, 4_999_999_999),
+				3 => *rng.pick(&[1001u64, 0xfffe, 0xffff, 0x1_0000, 0x1_0001, 0xffff_ffff, 0x1_0000_0000, 4_999_999_999, 1_000_000_000, 1_999_999_999, 2_000_000_000, 3_000_000_000]),
+				_ => rng.range(1001, 5000),
+			};
+			types.insert(t);
+		}
+		let mut sigs: BTreeSet<u64> = BTreeSet::new();
+		while sigs.len() < nsig { sigs.insert(match rng.below(4) { 0 => 240, 1 => 1000, 2 => rng.range(240, 252), _ => rng.range(240, 1000) }); }
+		let all: BTreeSet<u64> = types.union(&sigs).cloned().collect();
+		let mut out = vec![];
+		for t in all {
+			let l = b12_vlen(rng, max_vlen);
+			b12_put_bigsize(&mut out, t); b12_put_bigsize(&mut out, l); out.extend_from_slice(&rng.bytes(l as usize));
+		}
+		out
+	}
+
+	fn b12_string(rng: &mut Rng, max: u64) -> String {
+		let n = rng.below(max + 1);
+		let mut s = String::new();
+		for _ in 0..n {
+			match rng.below(12) {
+				0 => s.push(*rng.pick(&['é', 'ß', '日', '本', '€', '𝄞', '\u{7f}', '\t', '\n', '\u{0}'])),
+				1 => s.push(' '),
+				_ => s.push((b'!' + rng.below(94) as u8) as char),
+			}
+		}
+		s
+	}
+
+	fn b12_keypair(rng: &mut Rng, secp: &Secp256k1<secp256k1::All>) -> Keypair {
+		loop { if let Ok(sk) = SecretKey::from_slice(&rng.bytes32()) { return Keypair::from_secret_key(secp, &sk); } }
+	}
+
+	fn b12_nonce(rng: &mut Rng) -> (Nonce, [u8; 16]) {
+		let mut b = [0u8; 16]; b.copy_from_slice(&rng.bytes(16));
+		let n = if rng.chance(1, 2) { Nonce::try_from(&b[..]).unwrap() } else { let mut e = [0u8; 32]; e[..16].copy_from_slice(&b); for x in e[16..].iter_mut() { *x = rng.next() as u8; } Nonce::from_entropy_source(&B12Entropy(e)) };
+		(n, b)
+	}
+
+	fn b12_hops(rng: &mut Rng, st: &B12St) -> Vec<BlindedHop> {
+		let n = rng.range(1, 3);
+		(0..n).map(|_| BlindedHop { blinded_node_id: *rng.pick(&st.pks), encrypted_payload: { let l = rng.below(50) as usize; rng.bytes(l) } }).collect()
+	}
+	fn b12_msg_path(rng: &mut Rng, st: &B12St) -> BlindedMessagePath {
+		BlindedMessagePath::from_blinded_path(*rng.pick(&st.pks), *rng.pick(&st.pks), b12_hops(rng, st))
+	}
+	fn b12_pay_paths(rng: &mut Rng, st: &B12St) -> Vec<BlindedPaymentPath> {
+		let n = rng.range(1, 3);
+		(0..n).map(|_| {
+			let payinfo = BlindedPayInfo {
+				fee_base_msat: *rng.pick(&[0u32, 1, 1000, u32::MAX]), fee_proportional_millionths: rng.next() as u32 % 10_000,
+				cltv_expiry_delta: rng.next() as u16, htlc_minimum_msat: *rng.pick(&[0u64, 1, 100, 1_000_000]),
+				htlc_maximum_msat: *rng.pick(&[1u64, 1_000_000_000_000, B12_MAX_MSAT, u64::MAX]), features: BlindedHopFeatures::empty(),
+			};
+			BlindedPaymentPath::from_blinded_path_and_payinfo(*rng.pick(&st.pks), *rng.pick(&st.pks), b12_hops(rng, st), payinfo)
+		}).collect()
+	}
+
+	fn b12_n_class(n: usize) -> String {
+		if n <= 17 || (31..=33).contains(&n) { format!("n={}", n) } else if n < 31 { "n=18..30".into() } else { "n=34..40".into() }
+	}
+
+	// ---------------------------------------------------------------------------------------------
+	// phase 1: merkle roots of synthetic streams
+	// ---------------------------------------------------------------------------------------------
+
+	fn b12_phase_synth_merkle(rec: &mut Rec, rng: &mut Rng, args: &Args) {
+		let reps = (if args.thorough { 300 } else { 30 }) * args.scale;
+		let sizes: Vec<usize> = (1..=17).chain([18usize, 20, 24, 29, 31, 32, 33, 34, 40].into_iter()).collect();
+		for rep in 0..reps {
+			for &n in &sizes {
+				let nsig = match rng.below(5) { 0 => 1, 1 => if rng.chance(1, 2) { 2 } else { 1 }, _ => 0 };
+				let max_vlen = if n <= 8 || rep % 10 == 0 { 300 } else { 40 };
+				let bytes = b12_synth_stream(rng, n, nsig, max_vlen);
+				let class = if nsig > 0 { format!("merkle:synthetic+sig:{}", b12_n_class(n)) } else { format!("merkle:synthetic:{}", b12_n_class(n)) };
+				b12_emit_merkle(rec, &class, &bytes);
+				// the signature-range records must not influence the root
+				if nsig > 0 {
+					let stripped = b12_select(&bytes, |t| !b12_is_sig(t));
+					let a = guarded(B12Aus(|| b12_vho::merkle_root(&bytes))); let b = guarded(B12Aus(|| b12_vho::merkle_root(&stripped)));
+					if a != b { rec.oracle_fail(format!("merkle root depends on a signature-range record: with={:?} without={:?} bytes={}", a.map(|x| hex(&x)), b.map(|x| hex(&x)), hex(&bytes))); }
+				}
+			}
+		}
+	}
+
+	// ---------------------------------------------------------------------------------------------
+	// phase 2: metadata verification on synthetic streams (harness-side HMAC construction)
+	// ---------------------------------------------------------------------------------------------
+
+	fn b12_flip(v: &[u8], bit: usize) -> Vec<u8> { let mut o = v.to_vec(); o[bit / 8] ^= 1 << (bit % 8); o }
+
+	fn b12_phase_synth_meta(rec: &mut Rec, rng: &mut Rng, st: &mut B12St, args: &Args) {
+		let bases = (if args.thorough { 2500 } else { 250 }) * args.scale;
+		for i in 0..bases {
+			let payer = i % 2 == 1;
+			let ek = ExpandedKey::new(rng.bytes32());
+			let base = b12_vho::offers_base_key(&ek);
+			let mut iv = [0u8; 16];
+			match rng.below(3) { 0 => iv.copy_from_slice(&rng.bytes(16)), 1 => iv = **rng.pick(&[B12_IV_OFFER_META, B12_IV_OFFER_KEYS, B12_IV_INVREQ, B12_IV_REFUND_META, B12_IV_REFUND_KEYS]), _ => iv = [rng.next() as u8; 16] }
+			let mut nonce = [0u8; 16]; nonce.copy_from_slice(&rng.bytes(16));
+			let enc = rng.bytes32();
+			let n = match rng.below(6) { 0 => 1, 1 => rng.range(9, 20) as usize, _ => rng.range(1, 8) as usize };
+			let nsig = if rng.chance(1, 5) { 1 } else { 0 };
+			let mv = if rng.chance(1, 10) { 300 } else { 24 };
+			let tlv = b12_synth_stream(rng, n, nsig, mv);
+			let who = if payer { "p" } else { "r" };
+			let meta = if payer { b12_meta_payer(&base, &iv, &enc, &nonce, &tlv) } else { b12_meta_recipient(&base, &iv, &nonce, &tlv) };
+			b12_emit_mverify(rec, st, &format!("mverify:ok:{}", who), payer, &ek, &iv, &meta, &tlv, Some(true));
+			// --- mutants, all must be refused
+			for _ in 0..2 {
+				let bit = rng.below(meta.len() as u64 * 8) as usize;
+				let part = if payer { if bit < 256 { "encid" } else if bit < 384 { "nonce" } else { "hmac" } } else if bit < 128 { "nonce" } else { "hmac" };
+				b12_emit_mverify(rec, st, &format!("mverify:err:metaflip:{}", part), payer, &ek, &iv, &b12_flip(&meta, bit), &tlv, Some(false));
+			}
+			if let Some(recs) = b12_split(&tlv) {
+				let with_val: Vec<&B12Tlv> = recs.iter().filter(|r| r.end > r.vstart).collect();
+				if !with_val.is_empty() {
+					let r = *rng.pick(&with_val);
+					let bit = r.vstart * 8 + rng.below(((r.end - r.vstart) * 8) as u64) as usize;
+					b12_emit_mverify(rec, st, "mverify:err:tlvflip", payer, &ek, &iv, &meta, &b12_flip(&tlv, bit), Some(false));
+				}
+				// drop / append a record (stream stays well formed)
+				if recs.len() > 1 && rng.chance(1, 2) {
+					let k = rng.below(recs.len() as u64) as usize;
+					let mut t2 = tlv[..recs[k].start].to_vec(); t2.extend_from_slice(&tlv[recs[k].end..]);
+					b12_emit_mverify(rec, st, "mverify:err:tlvdrop", payer, &ek, &iv, &meta, &t2, Some(false));
+				} else {
+					let mut t2 = tlv.clone(); t2.extend_from_slice(&b12_record(5_000_000_001 + rng.below(1000), &rng.bytes(3)));
+					b12_emit_mverify(rec, st, "mverify:err:tlvadd", payer, &ek, &iv, &meta, &t2, Some(false));
+				}
+			}
+			let ek2 = ExpandedKey::new(rng.bytes32());
+			b12_emit_mverify(rec, st, "mverify:err:key", payer, &ek2, &iv, &meta, &tlv, Some(false));
+			let iv2 = if rng.chance(1, 2) { let mut x = iv; let b = rng.below(128) as usize; x[b / 8] ^= 1 << (b % 8); x } else { let mut x = [0u8; 16]; x.copy_from_slice(&rng.bytes(16)); x };
+			if iv2 != iv { b12_emit_mverify(rec, st, "mverify:err:iv", payer, &ek, &iv2, &meta, &tlv, Some(false)); }
+			let tl = rng.below(meta.len() as u64) as usize;
+			b12_emit_mverify(rec, st, "mverify:err:trunc", payer, &ek, &iv, &meta[..tl], &tlv, Some(false));
+			let mut ext = meta.clone(); ext.extend_from_slice(&{ let l = rng.range(1, 40) as usize; rng.bytes(l) });
+			b12_emit_mverify(rec, st, "mverify:err:extend", payer, &ek, &iv, &ext, &tlv, Some(false));
+			b12_emit_mverify(rec, st, "mverify:err:empty", payer, &ek, &iv, &[], &tlv, Some(false));
+			if payer { b12_emit_mverify(rec, st, "mverify:err:role", false, &ek, &iv, &meta, &tlv, Some(false)); }
+			// metadata built with the key-deriving marker [2;16] instead of [1;16] must not verify as plain metadata
+			let wrong_marker = if payer { let mut m = enc.to_vec(); m.extend_from_slice(&nonce); m.extend_from_slice(&b12_secret_payer(&base, &iv, &enc, &nonce, &tlv)); m } else { let mut m = nonce.to_vec(); m.extend_from_slice(&b12_secret_recipient(&base, &iv, &nonce, &tlv)); m };
+			b12_emit_mverify(rec, st, "mverify:err:marker", payer, &ek, &iv, &wrong_marker, &tlv, Some(false));
+			// --- key-deriving variant
+			if payer {
+				let mut m = enc.to_vec(); m.extend_from_slice(&nonce);
+				let secret = b12_secret_payer(&base, &iv, &enc, &nonce, &tlv);
+				b12_emit_mhmac(rec, st, "mhmac:p", true, &ek, &iv, &m, &tlv, &secret, None);
+			} else {
+				let secret = b12_secret_recipient(&base, &iv, &nonce, &tlv);
+				b12_emit_mhmac(rec, st, "mhmac:r", false, &ek, &iv, &nonce, &tlv, &secret, None);
+			}
+		}
+	}
+
+	// ---------------------------------------------------------------------------------------------
+	// impl-only oracles on built objects: fingerprints, round trips, single-bit mutations
+	// ---------------------------------------------------------------------------------------------
+
+	fn b12_ser<W: Writeable>(w: &W) -> Vec<u8> { w.encode() }
+
+	fn b12_fp_offer(o: &Offer) -> String {
+		format!("chains={:?} md={:?} amt={:?} desc={:?} feat={:?} exp={:?} issuer={:?} paths={:?} qty={:?} pk={:?} id={} eq={}",
+			o.chains(), o.metadata(), o.amount(), o.description().map(|s| s.0.to_string()), o.offer_features(), o.absolute_expiry(),
+			o.issuer().map(|s| s.0.to_string()), o.paths(), o.supported_quantity(), o.issuer_signing_pubkey(), hex(&o.id().0), o.expects_quantity())
+	}
+	fn b12_fp_invreq(r: &InvoiceRequest) -> String {
+		format!("chains={:?} md={:?} amt={:?} desc={:?} feat={:?} exp={:?} issuer={:?} paths={:?} qty={:?} pk={:?} | pmd={} chain={:?} amt={:?}/{} feat={:?} q={:?} payer={:?} note={:?} hrn={:?} sig={:?}",
+			r.chains(), r.metadata(), r.amount(), r.description().map(|s| s.0.to_string()), r.offer_features(), r.absolute_expiry(),
+			r.issuer().map(|s| s.0.to_string()), r.paths(), r.supported_quantity(), r.issuer_signing_pubkey(),
+			hex(r.payer_metadata()), r.chain(), r.amount_msats(), r.has_amount_msats(), r.invoice_request_features(), r.quantity(), r.payer_signing_pubkey(),
+			r.payer_note().map(|s| s.0.to_string()), r.offer_from_hrn(), r.signature())
+	}
+	fn b12_fp_invoice(i: &Bolt12Invoice) -> String {
+		format!("refund={} offer={} ochains={:?} chain={:?} md={:?} amt={:?} ofeat={:?} desc={:?} exp={:?} issuer={:?} mpaths={:?} qty={:?} ipk={:?} pmd={} rfeat={:?} q={:?} payer={:?} note={:?} hash={} amt={} | ppaths={:?} created={:?} rel={:?} fb={:?} feat={:?} pk={:?} sig={:?} digest={} oid={:?}",
+			i.is_for_refund(), i.is_for_offer(), i.offer_chains(), i.chain(), i.metadata(), i.amount(), i.offer_features(), i.description().map(|s| s.0.to_string()),
+			i.absolute_expiry(), i.issuer().map(|s| s.0.to_string()), i.message_paths(), i.supported_quantity(), i.issuer_signing_pubkey(), hex(i.payer_metadata()),
+			i.invoice_request_features(), i.quantity(), i.payer_signing_pubkey(), i.payer_note().map(|s| s.0.to_string()), hex(&i.payment_hash().0), i.amount_msats(),
+			i.payment_paths(), i.created_at(), i.relative_expiry(), i.fallbacks(), i.invoice_features(), i.signing_pubkey(), i.signature(), hex(&i.signable_hash()), i.offer_id().map(|o| hex(&o.0)))
+	}
+	fn b12_fp_refund(r: &Refund) -> String {
+		format!("desc={:?} exp={:?} issuer={:?} paths={:?} pmd={} chain={:?} amt={} feat={:?} q={:?} payer={:?} note={:?}",
+			r.description().0, r.absolute_expiry(), r.issuer().map(|s| s.0.to_string()), r.paths(), hex(r.payer_metadata()), r.chain(), r.amount_msats(), r.features(), r.quantity(),
+			r.payer_signing_pubkey(), r.payer_note().map(|s| s.0.to_string()))
+	}
+	fn b12_fp_static(i: &StaticInvoice) -> String {
+		format!("chain={:?} md={:?} amt={:?} ofeat={:?} desc={:?} exp={:?} issuer={:?} opaths={:?} held={:?} qty={:?} ipk={:?} | ppaths={:?} created={:?} rel={:?} fb={:?} feat={:?} pk={:?} sig={:?} oid={}",
+			i.chain(), i.metadata(), i.amount(), i.offer_features(), i.description().map(|s| s.0.to_string()), i.absolute_expiry(), i.issuer().map(|s| s.0.to_string()),
+			i.offer_message_paths(), i.held_htlc_available_paths(), i.supported_quantity(), i.issuer_signing_pubkey(), i.payment_paths(), i.created_at(), i.relative_expiry(),
+			i.fallbacks(), i.invoice_features(), i.signing_pubkey(), i.signature(), hex(&i.offer_id().0))
+	}
+
+	/// `parse(bytes)` → Ok(Some(fingerprint, re-encoding)) | Ok(None) (parse error) ; Err = panic.
+	type B12Parse<'a> = &'a dyn Fn(Vec<u8>) -> Result<Option<(String, Vec<u8>)>, String>;
+
+	fn b12_parse_offer(b: Vec<u8>) -> Result<Option<(String, Vec<u8>)>, String> { guarded(B12Aus(|| Offer::try_from(b).ok().map(|o| (b12_fp_offer(&o), b12_ser(&o))))) }
+	fn b12_parse_invreq(b: Vec<u8>) -> Result<Option<(String, Vec<u8>)>, String> { guarded(B12Aus(|| InvoiceRequest::try_from(b).ok().map(|o| (b12_fp_invreq(&o), b12_ser(&o))))) }
+	fn b12_parse_invoice(b: Vec<u8>) -> Result<Option<(String, Vec<u8>)>, String> { guarded(B12Aus(|| Bolt12Invoice::try_from(b).ok().map(|o| (b12_fp_invoice(&o), b12_ser(&o))))) }
+	fn b12_parse_refund(b: Vec<u8>) -> Result<Option<(String, Vec<u8>)>, String> { guarded(B12Aus(|| Refund::try_from(b).ok().map(|o| (b12_fp_refund(&o), b12_ser(&o))))) }
+	fn b12_parse_static(b: Vec<u8>) -> Result<Option<(String, Vec<u8>)>, String> { guarded(B12Aus(|| StaticInvoice::try_from(b).ok().map(|o| (b12_fp_static(&o), b12_ser(&o))))) }
+
+	fn b12_roundtrip(rec: &mut Rec, st: &mut B12St, kind: &'static str, bytes: &[u8], fp: &str, parse: B12Parse) {
+		st.roundtrips += 1;
+		match parse(bytes.to_vec()) {
+			Ok(Some((fp2, enc2))) => {
+				if enc2 != bytes { rec.oracle_fail(format!("round trip re-encoding differs: kind={} bytes={} reencoded={}", kind, hex(bytes), hex(&enc2))); }
+				if fp2 != fp { rec.oracle_fail(format!("round trip changes accessors: kind={} built=[{}] parsed=[{}] bytes={}", kind, fp, fp2, hex(bytes))); }
+			},
+			Ok(None) => rec.oracle_fail(format!("round trip: builder output does not parse: kind={} bytes={}", kind, hex(bytes))),
+			Err(p) => rec.oracle_fail(format!("panic parsing builder output: kind={} {} bytes={}", kind, p, hex(bytes))),
+		}
+	}
+
+	/// `to_string()` → `parse()` (Offer, Refund), also upper-cased and with `+` continuations.
+	fn b12_str_roundtrip(rec: &mut Rec, rng: &mut Rng, st: &mut B12St, kind: &'static str, s: &str, bytes: &[u8]) {
+		st.roundtrips += 1;
+		let parse = |x: &str| -> Result<Option<Vec<u8>>, String> {
+			if kind == "offer" { guarded(B12Aus(|| x.parse::<Offer>().ok().map(|o| b12_ser(&o)))) } else { guarded(B12Aus(|| x.parse::<Refund>().ok().map(|o| b12_ser(&o)))) }
+		};
+		let mut variants = vec![("plain", s.to_string()), ("upper", s.to_uppercase())];
+		// '+' continuation with optional whitespace after it, at 1..3 places (not inside the first chunk's start)
+		let mut c = s.to_string();
+		for _ in 0..rng.range(1, 3) {
+			let pos = rng.range(1, c.len() as u64 - 1) as usize;
+			if c.as_bytes()[pos - 1] == b'+' || c.as_bytes()[pos - 1].is_ascii_whitespace() || c.as_bytes()[pos] == b'+' || c.as_bytes()[pos].is_ascii_whitespace() { continue; }
+			let ws = *rng.pick(&["", " ", "\n", "\r\n  ", "\t "]);
+			c.insert_str(pos, &format!("+{}", ws));
+		}
+		variants.push(("continued", c));
+		for (what, v) in variants {
+			match parse(&v) {
+				Ok(Some(b)) => if b != bytes { rec.oracle_fail(format!("string round trip ({}) yields other bytes: kind={} str={:?}", what, kind, v)); },
+				Ok(None) => rec.oracle_fail(format!("string round trip ({}) does not parse: kind={} str={:?}", what, kind, v)),
+				Err(p) => rec.oracle_fail(format!("panic parsing string ({}): kind={} {} str={:?}", what, kind, p, v)),
+			}
+		}
+		// the other HRP must refuse it
+		let cross = if kind == "offer" { guarded(B12Aus(|| s.parse::<Refund>().is_ok())) } else { guarded(B12Aus(|| s.parse::<Offer>().is_ok())) };
+		if cross != Ok(false) { rec.oracle_fail(format!("string with HRP of {} accepted by the other parser: {:?} str={}", kind, cross, s)); }
+		if st.str_corpus.len() < 400 { st.str_corpus.push(s.to_string()); }
+	}
+
+	/// Every single-bit mutation of a signed stream must fail to parse.
+	fn b12_bitflips(rec: &mut Rec, rng: &mut Rng, st: &mut B12St, kind: &'static str, bytes: &[u8], parse: B12Parse) {
+		let nbits = bytes.len() * 8;
+		let left = st.sweeps_left.entry(kind).or_insert(if st.thorough { 12 } else { 2 });
+		let sample = if st.thorough { 200 } else { 80 };
+		let bits: Vec<usize> = if *left > 0 { *left -= 1; st.bitflip_full_sweeps += 1; (0..nbits).collect() } else { (0..sample).map(|_| rng.below(nbits as u64) as usize).collect() };
+		for bit in bits {
+			st.bitflips += 1;
+			let m = b12_flip(bytes, bit);
+			match parse(m.clone()) {
+				Ok(None) => {},
+				Ok(Some(_)) => rec.oracle_fail(format!("bitflip accepted: kind={} bit={} ({}) bytes={}", kind, bit, b12_locate(bytes, bit), hex(&m))),
+				Err(p) => rec.oracle_fail(format!("panic parsing bit-flipped stream: kind={} bit={} ({}) {} bytes={}", kind, bit, b12_locate(bytes, bit), p, hex(&m))),
+			}
+		}
+		// whole-record surgery on signed streams: drop the signature, drop any other record, append an unknown odd record
+		// labelled probe (not an oracle): an unknown odd record inside the signature range 241..=1000 is neither hashed nor parsed
+		if !st.probes.contains_key(&format!("insert_odd_signature_range_record:{}", kind)) {
+			if let Some(recs) = b12_split(bytes) {
+				if let Some(sig) = recs.iter().find(|r| r.typ == 240) {
+					let mut m = bytes[..sig.end].to_vec(); m.extend_from_slice(&b12_record(241 + 2 * rng.below(380), &rng.bytes(5))); m.extend_from_slice(&bytes[sig.end..]);
+					let out = match parse(m.clone()) { Ok(Some(_)) => "accepted", Ok(None) => "rejected", Err(_) => "panic" };
+					st.probes.insert(format!("insert_odd_signature_range_record:{}", kind), format!("{} bytes={}", out, hex(&m)));
+				}
+			}
+		}
+		if let Some(recs) = b12_split(bytes) {
+			let k = rng.below(recs.len() as u64) as usize;
+			let mut dropped = bytes[..recs[k].start].to_vec(); dropped.extend_from_slice(&bytes[recs[k].end..]);
+			let mut added = bytes.to_vec(); added.extend_from_slice(&b12_record(3_000_000_001 + 2 * rng.below(1000), &rng.bytes(2)));
+			let nosig = b12_select(bytes, |t| !b12_is_sig(t));
+			for (what, m) in [("drop-record", dropped), ("append-odd-experimental-record", added), ("strip-signature", nosig)] {
+				st.bitflips += 1;
+				match parse(m.clone()) {
+					Ok(None) => {},
+					Ok(Some(_)) => rec.oracle_fail(format!("altered signed stream accepted: kind={} alteration={} bytes={}", kind, what, hex(&m))),
+					Err(p) => rec.oracle_fail(format!("panic parsing altered signed stream: kind={} alteration={} {} bytes={}", kind, what, p, hex(&m))),
+				}
+			}
+		}
+	}
+
+	fn b12_expect(rec: &mut Rec, cond: bool, what: &str, bytes: &[u8]) { if !cond { rec.oracle_fail(format!("accessor does not reflect builder input: {} bytes={}", what, hex(bytes))); } }
+
+	// ---------------------------------------------------------------------------------------------
+	// builder parameter spaces
+	// ---------------------------------------------------------------------------------------------
+
+	struct B12Party { ek: ExpandedKey, nonce: Nonce, nonce_bytes: [u8; 16], keys: Keypair }
+	fn b12_party(rng: &mut Rng, st: &B12St) -> B12Party {
+		let (nonce, nonce_bytes) = b12_nonce(rng);
+		B12Party { ek: ExpandedKey::new(rng.bytes32()), nonce, nonce_bytes, keys: b12_keypair(rng, &st.secp) }
+	}
+
+	/// mode 0: explicit signing pubkey (optional explicit metadata); 1: derived metadata, no paths (48-byte
+	/// metadata, node id as signing pubkey); 2: derived signing pubkey (blinded paths, no metadata).
+	struct B12OfferP { mode: u8, metadata: Option<Vec<u8>>, amount: Option<u64>, desc: Option<String>, issuer: Option<String>, expiry: Option<u64>, qty: Quantity, nets: Vec<Network>, paths: Vec<BlindedMessagePath> }
+
+	fn b12_now() -> u64 { std::time::SystemTime::now().duration_since(std::time::UNIX_EPOCH).map(|d| d.as_secs()).unwrap_or(0) }
+
+	fn b12_gen_expiry(rng: &mut Rng) -> Option<u64> {
+		match rng.below(8) {
+			0 => Some(*rng.pick(&[0u64, 1, 1_000_000_000, 1_600_000_000])), // past
+			1 | 2 => Some(*rng.pick(&[4_102_444_800u64, 10_000_000_000, u32::MAX as u64 + 1, u64::MAX])), // future
+			3 => Some(b12_now() + 3600 + rng.below(1_000_000)),
+			_ => None,
+		}
+	}
+
+	fn b12_gen_offer_p(rng: &mut Rng, st: &B12St) -> B12OfferP {
+		let mode = rng.below(3) as u8;
+		let npaths = match mode { 0 => rng.below(4), 1 => 0, _ => rng.range(1, 3) } as usize;
+		let amount = match rng.below(6) { 0 => None, 1 => Some(1), 2 => Some(B12_MAX_MSAT), 3 => Some(rng.range(2, 1000)), _ => Some(rng.range(1, B12_MAX_MSAT / 1000)) };
+		let qty = match rng.below(5) { 0 | 1 => Quantity::One, 2 => Quantity::Unbounded, 3 => Quantity::Bounded(core::num::NonZeroU64::new(rng.range(1, 10)).unwrap()), _ => Quantity::Bounded(core::num::NonZeroU64::new(*rng.pick(&[1u64, 2, 255, 256, 65536, u64::MAX])).unwrap()) };
+		let nets = match rng.below(5) { 0 | 1 => vec![], 2 => vec![Network::Bitcoin], 3 => vec![*rng.pick(&B12_NETS)], _ => { let k = rng.range(2, 4); (0..k).map(|_| *rng.pick(&B12_NETS)).collect() } };
+		B12OfferP {
+			mode,
+			metadata: if mode == 0 && rng.chance(1, 2) { Some({ let l = *rng.pick(&[0u64, 1, 8, 15, 16, 17, 32, 47, 48, 49, 80, 100]) as usize; rng.bytes(l) }) } else { None },
+			amount,
+			desc: if rng.chance(2, 3) { Some(b12_string(rng, 40)) } else { None },
+			issuer: if rng.chance(1, 3) { Some(b12_string(rng, 30)) } else { None },
+			expiry: b12_gen_expiry(rng),
+			qty, nets,
+			paths: (0..npaths).map(|_| b12_msg_path(rng, st)).collect(),
+		}
+	}
+
+	fn b12_offer_common<'a, M: MetadataStrategy, T: secp256k1::Signing>(mut b: OfferBuilder<'a, M, T>, p: &B12OfferP) -> OfferBuilder<'a, M, T> {
+		for n in &p.nets { b = b.chain(*n); }
+		if let Some(a) = p.amount { b = b.amount_msats(a); }
+		if let Some(d) = &p.desc { b = b.description(d.clone()); }
+		if let Some(i) = &p.issuer { b = b.issuer(i.clone()); }
+		if let Some(e) = p.expiry { b = b.absolute_expiry(Duration::from_secs(e)); }
+		b = b.supported_quantity(p.qty);
+		for path in &p.paths { b = b.path(path.clone()); }
+		b
+	}
+
+	fn b12_build_offer(p: &B12OfferP, r: &B12Party, st: &B12St) -> Result<Offer, Bolt12SemanticError> {
+		if p.mode == 0 {
+			let mut b = OfferBuilder::new(r.keys.public_key());
+			if let Some(m) = &p.metadata { b = b.metadata(m.clone())?; }
+			b12_offer_common(b, p).build()
+		} else {
+			b12_offer_common(OfferBuilder::deriving_signing_pubkey(r.keys.public_key(), &r.ek, r.nonce, &st.secp), p).build()
+		}
+	}
+
+	fn b12_chain_hash(n: Network) -> bitcoin::constants::ChainHash { bitcoin::constants::ChainHash::using_genesis_block(n) }
+
+	fn b12_expected_chains(nets: &[Network]) -> Vec<bitcoin::constants::ChainHash> {
+		let mut out = vec![];
+		for n in nets { let c = b12_chain_hash(*n); if !out.contains(&c) { out.push(c); } }
+		if out.is_empty() { out.push(b12_chain_hash(Network::Bitcoin)); }
+		out
+	}
+
+	struct B12ReqP { net: Option<Network>, qty: Option<u64>, amount: Option<u64>, note: Option<String>, hrn: bool }
+
+	fn b12_gen_req_p(rng: &mut Rng, offer: &Offer) -> B12ReqP {
+		let supported: Vec<Network> = B12_NETS.iter().cloned().filter(|n| offer.supports_chain(b12_chain_hash(*n))).collect();
+		let net = if supported.is_empty() { None } else if !offer.supports_chain(b12_chain_hash(Network::Bitcoin)) || rng.chance(1, 2) { Some(*rng.pick(&supported)) } else { None };
+		let offer_amt = match offer.amount() { Some(Amount::Bitcoin { amount_msats }) => Some(amount_msats), _ => None };
+		let unit = offer_amt.unwrap_or(0).max(1);
+		let qmax = (B12_MAX_MSAT / unit).max(1);
+		let qty = match offer.supported_quantity() {
+			Quantity::One => None,
+			Quantity::Unbounded => Some(match rng.below(3) { 0 => 1, 1 => rng.range(1, 1000).min(qmax), _ => qmax.min(u64::MAX / 2) }),
+			Quantity::Bounded(n) => Some(match rng.below(3) { 0 => 1, 1 => n.get().min(qmax), _ => rng.range(1, n.get().min(1000)).min(qmax) }),
+		};
+		let expected = offer_amt.unwrap_or(0).saturating_mul(qty.unwrap_or(1));
+		let room = B12_MAX_MSAT.saturating_sub(expected);
+		let amount = if offer_amt.is_none() { Some(*rng.pick(&[0u64, 1, 1000, 123_456_789, B12_MAX_MSAT])) } else { match rng.below(4) { 0 | 1 => None, 2 => Some(expected), _ => Some(expected + rng.below(room + 1)) } };
+		B12ReqP { net, qty, amount, note: if rng.chance(1, 2) { Some(b12_string(rng, 60)) } else { None }, hrn: rng.chance(1, 6) }
+	}
+
+	fn b12_build_invreq(offer: &Offer, rp: &B12ReqP, payer: &B12Party, pid: PaymentId, st: &B12St) -> Result<InvoiceRequest, Bolt12SemanticError> {
+		let mut b = offer.request_invoice(&payer.ek, payer.nonce, &st.secp, pid)?;
+		if let Some(n) = rp.net { b = b.chain(n)?; }
+		if let Some(q) = rp.qty { b = b.quantity(q)?; }
+		if let Some(a) = rp.amount { b = b.amount_msats(a)?; }
+		if let Some(n) = &rp.note { b = b.payer_note(n.clone()); }
+		if rp.hrn { b = b.sourced_from_human_readable_name(HumanReadableName::new("satoshi", "example.com").unwrap()); }
+		b.build_and_sign()
+	}
+
+	struct B12InvP { paths: Vec<BlindedPaymentPath>, hash: PaymentHash, created: Duration, rel: Option<u32>, fallbacks: Vec<(u8, Vec<u8>)>, mpp: bool }
+
+	fn b12_gen_inv_p(rng: &mut Rng, st: &B12St) -> B12InvP {
+		let nfb = if rng.chance(1, 2) { 0 } else { rng.range(1, 3) };
+		B12InvP {
+			paths: b12_pay_paths(rng, st), hash: PaymentHash(rng.bytes32()),
+			created: Duration::from_secs(match rng.below(4) { 0 => 0, 1 => b12_now(), 2 => rng.below(1 << 34), _ => *rng.pick(&[1u64, u32::MAX as u64, u64::MAX]) }),
+			rel: match rng.below(4) { 0 => Some(*rng.pick(&[0u32, 1, 3600, u32::MAX])), 1 => Some(rng.next() as u32), _ => None },
+			fallbacks: (0..nfb).map(|_| { let k = rng.below(3) as u8; (k, match k { 0 => rng.bytes(32), 1 => rng.bytes(20), _ => rng.pick(&st.pks).x_only_public_key().0.serialize().to_vec() }) }).collect(),
+			mpp: rng.chance(1, 2),
+		}
+	}
+
+	macro_rules! b12_inv_common { ($b: expr, $ip: expr) => { {
+		let mut b = $b;
+		if let Some(r) = $ip.rel { b = b.relative_expiry(r); }
+		for (k, bytes) in &$ip.fallbacks {
+			match k {
+				0 => { let mut a = [0u8; 32]; a.copy_from_slice(bytes); b = b.fallback_v0_p2wsh(&bitcoin::WScriptHash::from_byte_array(a)); },
+				1 => { let mut a = [0u8; 20]; a.copy_from_slice(bytes); b = b.fallback_v0_p2wpkh(&bitcoin::WPubkeyHash::from_byte_array(a)); },
+				_ => { let x = secp256k1::XOnlyPublicKey::from_slice(bytes).unwrap(); b = b.fallback_v1_p2tr_tweaked(&bitcoin::key::TweakedPublicKey::dangerous_assume_tweaked(x)); },
+			}
+		}
+		if $ip.mpp { b = b.allow_mpp(); }
+		b
+	} } }
+
+	// ---------------------------------------------------------------------------------------------
+	// phase 3: real objects — offer → invoice request → invoice (→ static invoice)
+	// ---------------------------------------------------------------------------------------------
+
+	/// Checks shared by invoices for offers and for refunds; emits the `merkle`/`digest` ops.
+	fn b12_check_invoice(rec: &mut Rec, rng: &mut Rng, st: &mut B12St, kind: &'static str, inv: &Bolt12Invoice, ip: &B12InvP, unsigned_root: Option<[u8; 32]>) {
+		st.b12_built(kind);
+		let bytes = b12_ser(inv);
+		let root = b12_emit_merkle(rec, &format!("merkle:{}", kind), &bytes);
+		let digest = b12_emit_digest(rec, &format!("digest:{}", kind), B12_TAG_INVOICE, &bytes);
+		if let Some(root) = root {
+			if inv.tagged_hash().merkle_root().to_byte_array() != root { rec.oracle_fail(format!("hook merkle root differs from Bolt12Invoice::tagged_hash().merkle_root(): bytes={}", hex(&bytes))); }
+			if let Some(u) = unsigned_root { if u != root { rec.oracle_fail(format!("hook merkle root differs from UnsignedBolt12Invoice merkle root: bytes={}", hex(&bytes))); } }
+			let stripped = b12_select(&bytes, |t| !b12_is_sig(t));
+			match guarded(B12Aus(|| UnsignedBolt12Invoice::try_from(stripped.clone()).ok().map(|u| (u.tagged_hash().merkle_root().to_byte_array(), *u.tagged_hash().as_digest().as_ref())))) {
+				Ok(Some((r, d))) => { if r != root || Some(d) != digest { rec.oracle_fail(format!("UnsignedBolt12Invoice::try_from(signature stripped) has another merkle root/digest: bytes={}", hex(&bytes))); } },
+				other => rec.oracle_fail(format!("UnsignedBolt12Invoice::try_from(signature stripped) failed: {:?} bytes={}", other.map(|o| o.is_some()), hex(&stripped))),
+			}
+		}
+		if let Some(d) = digest {
+			if inv.signable_hash() != d { rec.oracle_fail(format!("tagged digest differs from Bolt12Invoice::signable_hash(): bytes={}", hex(&bytes))); }
+			if st.secp.verify_schnorr(&inv.signature(), &secp256k1::Message::from_digest(d), &inv.signing_pubkey().x_only_public_key().0).is_err() { rec.oracle_fail(format!("invoice signature does not verify over the hook digest: bytes={}", hex(&bytes))); }
+		}
+		b12_expect(rec, inv.payment_hash() == ip.hash, "invoice.payment_hash", &bytes);
+		b12_expect(rec, inv.created_at() == ip.created, "invoice.created_at", &bytes);
+		b12_expect(rec, inv.relative_expiry() == Duration::from_secs(ip.rel.map(|r| r as u64).unwrap_or(7200)), "invoice.relative_expiry", &bytes);
+		b12_expect(rec, inv.payment_paths() == &ip.paths[..], "invoice.payment_paths", &bytes);
+		b12_expect(rec, inv.fallbacks().len() == ip.fallbacks.len(), "invoice.fallbacks", &bytes);
+		b12_expect(rec, inv.invoice_features().supports_basic_mpp() == ip.mpp, "invoice.features(mpp)", &bytes);
+		b12_roundtrip(rec, st, kind, &bytes, &b12_fp_invoice(inv), &b12_parse_invoice);
+		b12_bitflips(rec, rng, st, kind, &bytes, &b12_parse_invoice);
+		// the other parsers must not take it
+		for (who, r) in [("offer", b12_parse_offer(bytes.clone())), ("invreq", b12_parse_invreq(bytes.clone())), ("refund", b12_parse_refund(bytes.clone())), ("static", b12_parse_static(bytes.clone()))] {
+			if !matches!(r, Ok(None)) { rec.oracle_fail(format!("a Bolt12Invoice encoding is accepted (or panics) as {}: bytes={}", who, hex(&bytes))); }
+		}
+		st.corpus.push(bytes);
+	}
+
+	/// Payer-side verification of an invoice: right key ⇒ the payment id, other key ⇒ error.
+	fn b12_check_payer_verify(rec: &mut Rec, rng: &mut Rng, st: &mut B12St, inv: &Bolt12Invoice, payer: &B12Party, pid: Option<PaymentId>, what: &str) {
+		let bytes = b12_ser(inv);
+		match (inv.verify_using_metadata(&payer.ek, &st.secp), pid) {
+			(Ok(got), Some(want)) => { st.verify_pos += 1; if got != want { rec.oracle_fail(format!("Bolt12Invoice::verify_using_metadata returned another PaymentId ({}): got={} want={} bytes={}", what, hex(&got.0), hex(&want.0), hex(&bytes))); } },
+			(Err(()), Some(_)) => rec.oracle_fail(format!("Bolt12Invoice::verify_using_metadata failed with the payer's own key ({}): bytes={}", what, hex(&bytes))),
+			(Ok(got), None) => rec.oracle_fail(format!("Bolt12Invoice::verify_using_metadata accepted payer metadata that was not derived from the key ({}): id={} bytes={}", what, hex(&got.0), hex(&bytes))),
+			(Err(()), None) => { st.verify_neg += 1; },
+		}
+		let other = ExpandedKey::new(rng.bytes32());
+		st.verify_neg += 1;
+		if let Ok(id) = inv.verify_using_metadata(&other, &st.secp) { rec.oracle_fail(format!("Bolt12Invoice::verify_using_metadata accepted another ExpandedKey ({}): id={} bytes={}", what, hex(&id.0), hex(&bytes))); }
+		if inv.payer_metadata().len() == 48 && pid.is_some() {
+			match inv.derive_payer_signing_keys(&payer.ek, &st.secp) {
+				Ok(k) => if k.public_key() != inv.payer_signing_pubkey() { rec.oracle_fail(format!("derive_payer_signing_keys returned another key ({}): bytes={}", what, hex(&bytes))); },
+				Err(()) => rec.oracle_fail(format!("derive_payer_signing_keys failed with the payer's own key ({}): bytes={}", what, hex(&bytes))),
+			}
+			st.verify_neg += 1;
+			if inv.derive_payer_signing_keys(&other, &st.secp).is_ok() { rec.oracle_fail(format!("derive_payer_signing_keys accepted another ExpandedKey ({}): bytes={}", what, hex(&bytes))); }
+		}
+	}
+
+	/// op `invverify <offers_base_key> <invoice bytes>` -> ok | err: `Bolt12Invoice::verify_using_metadata`
+	/// (WHICH records the payer's stateless check covers) against the model's `invoiceVerify`.  Key-deriving
+	/// payer metadata (48 bytes): negative verdicts hinge on the secp256k1 key comparison, impl-side only.
+	fn b12_emit_invoice_verify(rec: &mut Rec, st: &mut B12St, class: &str, inv: &Bolt12Invoice, ek: &ExpandedKey, expect_ok: Option<bool>) {
+		let bytes = b12_ser(inv);
+		let ok = match guarded(B12Aus(|| inv.verify_using_metadata(ek, &st.secp).is_ok())) { Ok(v) => v, Err(pn) => { rec.oracle_fail(format!("panic in Bolt12Invoice::verify_using_metadata ({}): {}", pn, hex(&bytes))); return; } };
+		if let Some(e) = expect_ok { if e != ok { rec.oracle_fail(format!("invoice verify expected {} got {} ({}): invoice={}", e, ok, class, hex(&bytes))); } }
+		if inv.payer_metadata().len() == 48 && !ok { if expect_ok == Some(false) { st.verify_neg += 1; } return; }
+		rec.case(&format!("invverify {} {}", hex(&b12_vho::offers_base_key(ek)), hex(&bytes)), if ok { "ok" } else { "err" }, class, true);
+	}
+
+	/// the invoice with one covered-or-not record altered and the signature recomputed with `signer`
+	fn b12_alter_and_resign(rng: &mut Rng, st: &B12St, orig: &[u8], signer: &Keypair) -> Option<(String, Bolt12Invoice)> {
+		let recs = b12_split(orig)?;
+		for _ in 0..12 {
+			let body: Vec<&B12Tlv> = recs.iter().filter(|r| !b12_is_sig(r.typ)).collect();
+			let (what, mut parts): (String, Vec<(u64, Vec<u8>)>) = {
+				let mut parts: Vec<(u64, Vec<u8>)> = body.iter().map(|r| (r.typ, orig[r.start..r.end].to_vec())).collect();
+				match rng.below(4) {
+					0 | 1 => {
+						let cands: Vec<usize> = (0..body.len()).filter(|i| body[*i].end > body[*i].vstart).collect();
+						if cands.is_empty() { continue; }
+						let i = *rng.pick(&cands);
+						let r = body[i];
+						let bit = (r.vstart - r.start) * 8 + rng.below(((r.end - r.vstart) * 8) as u64) as usize;
+						parts[i].1 = b12_flip(&parts[i].1, bit);
+						(format!("valueflip:{}", r.typ), parts)
+					},
+					2 => {
+						let present: BTreeSet<u64> = body.iter().map(|r| r.typ).collect();
+						let t = 1 + 2 * rng.below(119);
+						if present.contains(&t) { continue; }
+						let l = rng.below(12) as usize;
+						parts.push((t, b12_record(t, &rng.bytes(l))));
+						("insert-odd".to_string(), parts)
+					},
+					_ => {
+						let i = rng.below(body.len() as u64) as usize;
+						let t = parts[i].0;
+						parts.remove(i);
+						(format!("remove:{}", t), parts)
+					},
+				}
+			};
+			parts.sort_by_key(|p| p.0);
+			let unsigned: Vec<u8> = parts.iter().flat_map(|p| p.1.clone()).collect();
+			let digest = match guarded(B12Aus(|| b12_vho::tagged_digest(B12_TAG_INVOICE, &unsigned))) { Ok(d) => d, Err(_) => continue };
+			let sig = st.secp.sign_schnorr_no_aux_rand(&secp256k1::Message::from_digest(digest), signer);
+			parts.push((240, b12_record(240, &sig.serialize())));
+			parts.sort_by_key(|p| p.0);
+			let bytes: Vec<u8> = parts.iter().flat_map(|p| p.1.clone()).collect();
+			if bytes == orig { continue; }
+			if let Ok(Some(i)) = guarded(B12Aus(|| Bolt12Invoice::try_from(bytes.clone()).ok())) { return Some((what, i)); }
+		}
+		None
+	}
+
+	fn b12_invoice_verify_ops(rec: &mut Rec, rng: &mut Rng, st: &mut B12St, inv: &Bolt12Invoice, payer: &B12Party, derived_by_payer: bool, signer: Option<&Keypair>) {
+		let other = ExpandedKey::new(rng.bytes32());
+		b12_emit_invoice_verify(rec, st, if derived_by_payer { "invverify:ok" } else { "invverify:err:explicit" }, inv, &payer.ek, Some(derived_by_payer));
+		b12_emit_invoice_verify(rec, st, "invverify:err:otherkey", inv, &other, Some(false));
+		if !derived_by_payer { return; }
+		if let Some(kp) = signer {
+			let orig = b12_ser(inv);
+			for _ in 0..4 {
+				if let Some((what, altered)) = b12_alter_and_resign(rng, st, &orig, kp) {
+					// records of the invoice's own ranges (160..240, 3e9..) are the recipient's: not covered by the payer's MAC
+					let t: u64 = what.split(':').nth(1).and_then(|x| x.parse().ok()).unwrap_or(0);
+					let covered = match what.split(':').next().unwrap() { "insert-odd" => None, _ => Some(t < 160 || t >= 1_000_000_000 && t < 3_000_000_000) }; // type 0 is the metadata itself
+					let expect = match covered { Some(true) => Some(false), Some(false) => Some(true), None => None };
+					b12_emit_invoice_verify(rec, st, &format!("invverify:resigned:{}", what.split(':').next().unwrap()), &altered, &payer.ek, expect);
+				}
+			}
+		}
+	}
+
+	/// Recipient-side verification of a request; returns the verified request when it should (and does) verify.
+	fn b12_verify_invreq(rec: &mut Rec, rng: &mut Rng, st: &mut B12St, req: &InvoiceRequest, mode: u8, r: &B12Party, offer: &Offer) -> Option<InvoiceRequestVerifiedFromOffer> {
+		let bytes = b12_ser(req);
+		let other_ek = ExpandedKey::new(rng.bytes32());
+		let (other_nonce, _) = b12_nonce(rng);
+		let by_meta = req.clone().verify_using_metadata(&r.ek, &st.secp);
+		let by_data = req.clone().verify_using_recipient_data(r.nonce, &r.ek, &st.secp);
+		let mut neg = |rec: &mut Rec, what: &str, res: Result<InvoiceRequestVerifiedFromOffer, ()>| { st.verify_neg += 1; if res.is_ok() { rec.oracle_fail(format!("InvoiceRequest verification accepted although it must fail: {} mode={} bytes={}", what, mode, hex(&bytes))); } };
+		neg(rec, "verify_using_metadata(other ExpandedKey)", req.clone().verify_using_metadata(&other_ek, &st.secp));
+		neg(rec, "verify_using_recipient_data(right nonce, other ExpandedKey)", req.clone().verify_using_recipient_data(r.nonce, &other_ek, &st.secp));
+		if other_nonce != r.nonce { neg(rec, "verify_using_recipient_data(other nonce)", req.clone().verify_using_recipient_data(other_nonce, &r.ek, &st.secp)); }
+		let verified = match mode {
+			0 => { neg(rec, "verify_using_metadata on an offer without derived metadata", by_meta); neg(rec, "verify_using_recipient_data on an offer with explicit keys", by_data); None },
+			1 => { neg(rec, "verify_using_recipient_data on an offer with metadata-only derivation", by_data); match by_meta { Ok(v) => Some(v), Err(()) => { rec.oracle_fail(format!("verify_using_metadata failed for a request against the unaltered offer: bytes={}", hex(&bytes))); None } } },
+			_ => { neg(rec, "verify_using_metadata on an offer without metadata", by_meta); match by_data { Ok(v) => Some(v), Err(()) => { rec.oracle_fail(format!("verify_using_recipient_data failed for a request against the unaltered offer: bytes={}", hex(&bytes))); None } } },
+		};
+		if let Some(v) = &verified {
+			st.verify_pos += 1;
+			if v.offer_id() != offer.id() { rec.oracle_fail(format!("verified request carries another OfferId: bytes={}", hex(&bytes))); }
+			match (mode, v) {
+				(1, InvoiceRequestVerifiedFromOffer::ExplicitKeys(_)) | (2, InvoiceRequestVerifiedFromOffer::DerivedKeys(_)) => {},
+				_ => rec.oracle_fail(format!("verified request has the wrong key strategy for offer mode {}: bytes={}", mode, hex(&bytes))),
+			}
+		}
+		verified
+	}
+
+	fn b12_offer_records_for_hmac(bytes: &[u8], skip_issuer_id: bool) -> Vec<u8> {
+		b12_select(bytes, |t| ((1..80).contains(&t) && t != 4 && !(skip_issuer_id && t == 22)) || (1_000_000_000..2_000_000_000).contains(&t))
+	}
+	fn b12_payer_records_for_hmac(bytes: &[u8], skip_payer_id: bool) -> Vec<u8> {
+		b12_select(bytes, |t| (1..80).contains(&t) || ((80..160).contains(&t) && !(skip_payer_id && t == 88)) || (1_000_000_000..3_000_000_000).contains(&t))
+	}
+
+	fn b12_offer_flow(rec: &mut Rec, rng: &mut Rng, st: &mut B12St, idx: u64) {
+		let recipient = b12_party(rng, st);
+		let payer = b12_party(rng, st);
+		let p = b12_gen_offer_p(rng, st);
+		let offer = match b12_build_offer(&p, &recipient, st) { Ok(o) => o, Err(e) => { st.b12_builder_err("offer", &e); rec.discarded += 1; return; } };
+		st.b12_built("offer");
+		let obytes = b12_ser(&offer);
+		// ---- offer: ops, accessors, round trips
+		b12_emit_merkle(rec, "merkle:offer", &obytes);
+		b12_expect(rec, offer.as_ref() == &obytes[..], "offer.as_ref()==encode()", &obytes);
+		b12_expect(rec, offer.amount() == p.amount.map(|a| Amount::Bitcoin { amount_msats: a }), "offer.amount", &obytes);
+		let want_desc = match (&p.desc, p.amount) { (Some(d), _) => Some(d.clone()), (None, Some(_)) => Some(String::new()), (None, None) => None };
+		b12_expect(rec, offer.description().map(|s| s.0.to_string()) == want_desc, "offer.description", &obytes);
+		b12_expect(rec, offer.issuer().map(|s| s.0.to_string()) == p.issuer, "offer.issuer", &obytes);
+		b12_expect(rec, offer.absolute_expiry() == p.expiry.map(Duration::from_secs), "offer.absolute_expiry", &obytes);
+		b12_expect(rec, offer.supported_quantity() == p.qty, "offer.supported_quantity", &obytes);
+		b12_expect(rec, offer.chains() == b12_expected_chains(&p.nets), "offer.chains", &obytes);
+		b12_expect(rec, offer.paths() == &p.paths[..], "offer.paths", &obytes);
+		b12_expect(rec, *offer.offer_features() == lightning::types::features::OfferFeatures::empty(), "offer.features", &obytes);
+		match p.mode {
+			0 => { b12_expect(rec, offer.metadata() == p.metadata.as_ref(), "offer.metadata(explicit)", &obytes); b12_expect(rec, offer.issuer_signing_pubkey() == Some(recipient.keys.public_key()), "offer.issuer_signing_pubkey(explicit)", &obytes); },
+			1 => { b12_expect(rec, offer.metadata().map(|m| m.len()) == Some(48) && offer.metadata().map(|m| &m[..16]) == Some(&recipient.nonce_bytes[..]), "offer.metadata(derived = nonce‖hmac)", &obytes); b12_expect(rec, offer.issuer_signing_pubkey() == Some(recipient.keys.public_key()), "offer.issuer_signing_pubkey(node id)", &obytes); },
+			_ => { b12_expect(rec, offer.metadata().is_none(), "offer.metadata(absent with derived keys)", &obytes); b12_expect(rec, offer.issuer_signing_pubkey().is_some() && offer.issuer_signing_pubkey() != Some(recipient.keys.public_key()), "offer.issuer_signing_pubkey(derived)", &obytes); },
+		}
+		b12_roundtrip(rec, st, "offer", &obytes, &b12_fp_offer(&offer), &b12_parse_offer);
+		b12_str_roundtrip(rec, rng, st, "offer", &offer.to_string(), &obytes);
+		st.corpus.push(obytes.clone());
+		// ---- offer metadata through the hook
+		let base_r = b12_vho::offers_base_key(&recipient.ek);
+		if p.mode == 1 {
+			let tlv = b12_offer_records_for_hmac(&obytes, false);
+			let meta = offer.metadata().cloned().unwrap_or_default();
+			if meta != b12_meta_recipient(&base_r, B12_IV_OFFER_META, &recipient.nonce_bytes, &tlv) { rec.oracle_fail(format!("derived offer metadata is not nonce‖HMAC(iv‖nonce‖records‖[1;16]‖[3;16]): bytes={}", hex(&obytes))); }
+			b12_emit_mverify(rec, st, "mverify:ok:offer", false, &recipient.ek, B12_IV_OFFER_META, &meta, &tlv, Some(true));
+			// same metadata over the full record set (metadata record included) or with the v2 iv must fail
+			b12_emit_mverify(rec, st, "mverify:err:offer:allrecords", false, &recipient.ek, B12_IV_OFFER_META, &meta, &obytes, Some(false));
+			b12_emit_mverify(rec, st, "mverify:err:offer:iv", false, &recipient.ek, B12_IV_OFFER_KEYS, &meta, &tlv, Some(false));
+		} else if p.mode == 2 {
+			let tlv = b12_offer_records_for_hmac(&obytes, true);
+			let secret = b12_secret_recipient(&base_r, B12_IV_OFFER_KEYS, &recipient.nonce_bytes, &tlv);
+			b12_emit_mhmac(rec, st, "mhmac:r:offer", false, &recipient.ek, B12_IV_OFFER_KEYS, &recipient.nonce_bytes, &tlv, &secret, offer.issuer_signing_pubkey());
+		}
+		// ---- invoice request
+		let pid = PaymentId(rng.bytes32());
+		let rp = b12_gen_req_p(rng, &offer);
+		let req = match b12_build_invreq(&offer, &rp, &payer, pid, st) {
+			Ok(r) => { if offer.is_expired() { rec.oracle_fail(format!("request built for an expired offer: offer={}", hex(&obytes))); } r },
+			Err(e) => {
+				if offer.is_expired() && e == Bolt12SemanticError::AlreadyExpired { st.builder_rejects += 1; } else { st.b12_builder_err("invreq", &e); rec.discarded += 1; }
+				return;
+			},
+		};
+		st.b12_built("invreq");
+		let rbytes = b12_ser(&req);
+		let rroot = b12_emit_merkle(rec, "merkle:invreq", &rbytes);
+		let rdigest = b12_emit_digest(rec, "digest:invreq", B12_TAG_INVREQ, &rbytes);
+		let stripped = b12_select(&rbytes, |t| !b12_is_sig(t));
+		match guarded(B12Aus(|| UnsignedInvoiceRequest::try_from(stripped.clone()).ok().map(|u| (u.tagged_hash().merkle_root().to_byte_array(), *u.tagged_hash().as_digest().as_ref(), u.tagged_hash().tag().to_string())))) {
+			Ok(Some((r, d, tag))) => { if Some(r) != rroot || Some(d) != rdigest || tag != B12_TAG_INVREQ { rec.oracle_fail(format!("UnsignedInvoiceRequest::try_from(signature stripped): merkle root / digest / tag differ from the hooks: bytes={}", hex(&rbytes))); } },
+			other => rec.oracle_fail(format!("UnsignedInvoiceRequest::try_from(signature stripped) failed: {:?} bytes={}", other.map(|o| o.is_some()), hex(&stripped))),
+		}
+		if let Some(d) = rdigest { if st.secp.verify_schnorr(&req.signature(), &secp256k1::Message::from_digest(d), &req.payer_signing_pubkey().x_only_public_key().0).is_err() { rec.oracle_fail(format!("request signature does not verify over the hook digest: bytes={}", hex(&rbytes))); } }
+		let offer_amt = p.amount.unwrap_or(0);
+		b12_expect(rec, req.chain() == b12_chain_hash(rp.net.unwrap_or(Network::Bitcoin)), "invreq.chain", &rbytes);
+		b12_expect(rec, req.quantity() == rp.qty, "invreq.quantity", &rbytes);
+		b12_expect(rec, req.has_amount_msats() == rp.amount.is_some(), "invreq.has_amount_msats", &rbytes);
+		b12_expect(rec, req.amount_msats() == Some(rp.amount.unwrap_or(offer_amt.saturating_mul(rp.qty.unwrap_or(1)))), "invreq.amount_msats", &rbytes);
+		b12_expect(rec, req.payer_note().map(|s| s.0.to_string()) == rp.note, "invreq.payer_note", &rbytes);
+		b12_expect(rec, req.offer_from_hrn().is_some() == rp.hrn, "invreq.offer_from_hrn", &rbytes);
+		b12_expect(rec, req.payer_metadata().len() == 48 && req.payer_metadata()[32..] == payer.nonce_bytes[..], "invreq.payer_metadata = enc_payment_id‖nonce", &rbytes);
+		b12_expect(rec, req.paths() == offer.paths() && req.amount() == offer.amount() && req.issuer_signing_pubkey() == offer.issuer_signing_pubkey() && req.metadata() == offer.metadata() && req.chains() == offer.chains() && req.supported_quantity() == offer.supported_quantity() && req.absolute_expiry() == offer.absolute_expiry(), "invreq mirrors the offer fields", &rbytes);
+		b12_roundtrip(rec, st, "invreq", &rbytes, &b12_fp_invreq(&req), &b12_parse_invreq);
+		b12_bitflips(rec, rng, st, "invreq", &rbytes, &b12_parse_invreq);
+		st.corpus.push(rbytes.clone());
+		// payer keys through the hook
+		let base_p = b12_vho::offers_base_key(&payer.ek);
+		if req.payer_metadata().len() == 48 {
+			let mut enc = [0u8; 32]; enc.copy_from_slice(&req.payer_metadata()[..32]);
+			let tlv = b12_payer_records_for_hmac(&rbytes, true);
+			let secret = b12_secret_payer(&base_p, B12_IV_INVREQ, &enc, &payer.nonce_bytes, &tlv);
+			let meta = req.payer_metadata().to_vec();
+			b12_emit_mhmac(rec, st, "mhmac:p:invreq", true, &payer.ek, B12_IV_INVREQ, &meta, &tlv, &secret, Some(req.payer_signing_pubkey()));
+		}
+		// ---- recipient-side verification, positives and negatives
+		let verified = b12_verify_invreq(rec, rng, st, &req, p.mode, &recipient, &offer);
+		b12_offer_verify_ops(rec, rng, st, &offer, &p, &recipient);
+		if p.mode != 0 { for _ in 0..2 { b12_altered_offer_probe(rec, rng, st, &offer, &p, &recipient, &payer); } }
+		// ---- invoice
+		let ip = b12_gen_inv_p(rng, st);
+		let built: Result<(Bolt12Invoice, Option<[u8; 32]>), Bolt12SemanticError> = (|| match (&verified, p.mode) {
+			(Some(InvoiceRequestVerifiedFromOffer::DerivedKeys(v)), _) => {
+				let b = v.respond_using_derived_keys_no_std(ip.paths.clone(), ip.hash, ip.created)?;
+				Ok((b12_inv_common!(b, ip).build_and_sign(&st.secp)?, None))
+			},
+			(Some(InvoiceRequestVerifiedFromOffer::ExplicitKeys(v)), _) => {
+				let u = b12_inv_common!(v.respond_with_no_std(ip.paths.clone(), ip.hash, ip.created)?, ip).build()?;
+				let root = u.tagged_hash().merkle_root().to_byte_array();
+				Ok((u.sign(|m: &UnsignedBolt12Invoice| Ok(st.secp.sign_schnorr_no_aux_rand(m.as_ref().as_digest(), &recipient.keys))).map_err(|_| Bolt12SemanticError::InvalidSigningPubkey)?, Some(root)))
+			},
+			(None, _) => {
+				let u = b12_inv_common!(req.respond_with_no_std(ip.paths.clone(), ip.hash, ip.created)?, ip).build()?;
+				let root = u.tagged_hash().merkle_root().to_byte_array();
+				Ok((u.sign(|m: &UnsignedBolt12Invoice| Ok(st.secp.sign_schnorr_no_aux_rand(m.as_ref().as_digest(), &recipient.keys))).map_err(|_| Bolt12SemanticError::InvalidSigningPubkey)?, Some(root)))
+			},
+		})();
+		match built {
+			Ok((inv, uroot)) => {
+				let ibytes = b12_ser(&inv);
+				b12_check_invoice(rec, rng, st, "invoice", &inv, &ip, uroot);
+				b12_expect(rec, inv.is_for_offer() && !inv.is_for_refund(), "invoice.is_for_offer", &ibytes);
+				b12_expect(rec, Some(inv.amount_msats()) == req.amount_msats(), "invoice.amount_msats", &ibytes);
+				b12_expect(rec, Some(inv.signing_pubkey()) == offer.issuer_signing_pubkey(), "invoice.signing_pubkey", &ibytes);
+				b12_expect(rec, inv.payer_signing_pubkey() == req.payer_signing_pubkey() && inv.payer_metadata() == req.payer_metadata() && inv.quantity() == req.quantity() && inv.chain() == req.chain(), "invoice mirrors the request fields", &ibytes);
+				b12_expect(rec, inv.payer_note().map(|s| s.0.to_string()) == rp.note && inv.description().map(|s| s.0.to_string()) == want_desc && inv.message_paths() == offer.paths() && inv.offer_chains() == Some(offer.chains()), "invoice mirrors offer/request strings, paths and chains", &ibytes);
+				b12_expect(rec, inv.offer_id() == Some(offer.id()), "invoice.offer_id", &ibytes);
+				b12_check_payer_verify(rec, rng, st, &inv, &payer, Some(pid), "invoice for offer");
+				b12_invoice_verify_ops(rec, rng, st, &inv, &payer, true, if p.mode == 2 { None } else { Some(&recipient.keys) });
+				// another payer (other key material, nonce, payment id) on the same offer
+				if idx % 3 == 0 {
+					let payer2 = b12_party(rng, st);
+					let pid2 = PaymentId(rng.bytes32());
+					if let Ok(req2) = b12_build_invreq(&offer, &rp, &payer2, pid2, st) {
+						let r2 = if p.mode == 2 {
+							match req2.clone().verify_using_recipient_data(recipient.nonce, &recipient.ek, &st.secp) { Ok(InvoiceRequestVerifiedFromOffer::DerivedKeys(v)) => v.respond_using_derived_keys_no_std(ip.paths.clone(), ip.hash, ip.created).and_then(|b| b.build_and_sign(&st.secp)).ok(), _ => None }
+						} else {
+							req2.respond_with_no_std(ip.paths.clone(), ip.hash, ip.created).and_then(|b| b.build()).ok().and_then(|u| u.sign(|m: &UnsignedBolt12Invoice| Ok(st.secp.sign_schnorr_no_aux_rand(m.as_ref().as_digest(), &recipient.keys))).ok())
+						};
+						if let Some(inv2) = r2 {
+							st.verify_neg += 1;
+							if let Ok(id) = inv2.verify_using_metadata(&payer.ek, &st.secp) { rec.oracle_fail(format!("invoice for another payer's request verified with this payer's key: id={} bytes={}", hex(&id.0), hex(&b12_ser(&inv2)))); }
+							match inv2.verify_using_metadata(&payer2.ek, &st.secp) { Ok(id) if id == pid2 => { st.verify_pos += 1; }, other => rec.oracle_fail(format!("second payer cannot verify its own invoice: {:?} bytes={}", other.map(|i| hex(&i.0)), hex(&b12_ser(&inv2)))) }
+						}
+					}
+					// same payer key, other nonce and payment id: verifies, but to the other payment id
+					let (n3, nb3) = b12_nonce(rng);
+					let payer3 = B12Party { ek: payer.ek, nonce: n3, nonce_bytes: nb3, keys: payer.keys };
+					let pid3 = PaymentId(rng.bytes32());
+					if let Ok(req3) = b12_build_invreq(&offer, &rp, &payer3, pid3, st) {
+						if req3.payer_signing_pubkey() == req.payer_signing_pubkey() { rec.oracle_fail(format!("two requests with different nonces share the payer signing pubkey: {}", hex(&b12_ser(&req3)))); }
+						if p.mode != 2 {
+							if let Some(inv3) = req3.respond_with_no_std(ip.paths.clone(), ip.hash, ip.created).and_then(|b| b.build()).ok().and_then(|u| u.sign(|m: &UnsignedBolt12Invoice| Ok(st.secp.sign_schnorr_no_aux_rand(m.as_ref().as_digest(), &recipient.keys))).ok()) {
+								match inv3.verify_using_metadata(&payer.ek, &st.secp) { Ok(id) if id == pid3 && id != pid => { st.verify_pos += 1; }, other => rec.oracle_fail(format!("invoice for a request with another nonce/payment id: expected that payment id, got {:?} bytes={}", other.map(|i| hex(&i.0)), hex(&b12_ser(&inv3)))) }
+							}
+						}
+					}
+				}
+			},
+			Err(e) => { st.b12_builder_err("invoice", &e); rec.discarded += 1; },
+		}
+		// ---- static invoice (needs derived keys, blinded paths and at most one chain)
+		if p.mode == 2 && offer.chains().len() <= 1 { b12_static_flow(rec, rng, st, &offer, &recipient); }
+	}
+
+	/// A request built against an altered (still parseable) copy of a derived-metadata offer must not verify.
+	/// op `offerverify <offers_base_key> <nonce|-> <offer bytes>` -> ok | err | keys <secret>: the hook
+	/// `Offer::verif_verify` (OfferContents::verify_using_metadata / verify_using_recipient_data), i.e. WHICH
+	/// records the stateless check covers, against the model's `offerVerify`.  In the key-deriving mode a
+	/// negative verdict hinges on the secp256k1 public key comparison the model does not have, so those
+	/// stay implementation-side (expectation checked, no op line).
+	fn b12_emit_offer_verify(rec: &mut Rec, st: &mut B12St, class: &str, offer: &Offer, nonce: Option<&B12Party>, ek: &ExpandedKey, expect_ok: Option<bool>) {
+		let bytes = b12_ser(offer);
+		let base = b12_vho::offers_base_key(ek);
+		let r = guarded(B12Aus(|| b12_vho::offer_verify(offer, nonce.map(|n| n.nonce), ek)));
+		let ans = match r {
+			Err(pn) => { rec.oracle_fail(format!("panic in Offer verify ({}): offer={}", pn, hex(&bytes))); return; },
+			Ok(Ok(None)) => "ok".to_string(),
+			Ok(Ok(Some(sk))) => format!("keys {}", hex(&sk)),
+			Ok(Err(())) => "err".to_string(),
+		};
+		if let Some(e) = expect_ok { if e != (ans != "err") { rec.oracle_fail(format!("offer verify expected {} got {} ({}): offer={}", if e { "ok" } else { "err" }, ans, class, hex(&bytes))); } }
+		let key_mode = nonce.is_some() || offer.metadata().map_or(false, |m| m.len() == 16);
+		if key_mode && ans == "err" { if expect_ok == Some(false) { st.verify_neg += 1; } return; }
+		rec.case(&format!("offerverify {} {} {}", hex(&base), nonce.map_or("-".to_string(), |n| hex(&n.nonce_bytes)), hex(&bytes)), &ans, class, true);
+	}
+
+	/// one random alteration of an offer's bytes that still parses as an offer
+	fn b12_alter_offer(rng: &mut Rng, orig: &[u8]) -> Option<(String, Offer)> {
+		let recs = b12_split(orig)?;
+		for _ in 0..12 {
+			let (what, bytes): (String, Vec<u8>) = match rng.below(6) {
+				0 | 1 => {
+					let with_val: Vec<&B12Tlv> = recs.iter().filter(|r| r.end > r.vstart).collect();
+					if with_val.is_empty() { continue; }
+					let r = *rng.pick(&with_val);
+					let bit = r.vstart * 8 + rng.below(((r.end - r.vstart) * 8) as u64) as usize;
+					(format!("valueflip:{}", r.typ), b12_flip(orig, bit))
+				},
+				2 => {
+					let present: BTreeSet<u64> = recs.iter().map(|r| r.typ).collect();
+					let t = 1 + 2 * rng.below(40);
+					if present.contains(&t) { continue; }
+					let pos = recs.iter().find(|r| r.typ > t).map(|r| r.start).unwrap_or(orig.len());
+					let l = rng.below(20) as usize;
+					let mut b = orig[..pos].to_vec(); b.extend_from_slice(&b12_record(t, &rng.bytes(l))); b.extend_from_slice(&orig[pos..]);
+					("insert-odd".to_string(), b)
+				},
+				3 => {
+					let t = 1_000_000_001 + 2 * rng.below(400_000_000);
+					let mut b = orig.to_vec(); b.extend_from_slice(&b12_record(t, &rng.bytes(4)));
+					("append-experimental".to_string(), b)
+				},
+				4 => {
+					let r = rng.pick(&recs);
+					let mut b = orig[..r.start].to_vec(); b.extend_from_slice(&orig[r.end..]);
+					(format!("remove:{}", r.typ), b)
+				},
+				_ => {
+					if recs.iter().any(|r| r.typ == 4) { continue; }
+					let pos = recs.iter().find(|r| r.typ > 4).map(|r| r.start).unwrap_or(orig.len());
+					let l = rng.below(60) as usize;
+					let mut b = orig[..pos].to_vec(); b.extend_from_slice(&b12_record(4, &rng.bytes(l))); b.extend_from_slice(&orig[pos..]);
+					("add-metadata".to_string(), b)
+				},
+			};
+			if bytes == orig { continue; }
+			if let Ok(Some(o)) = guarded(B12Aus(|| Offer::try_from(bytes.clone()).ok())) { return Some((what, o)); }
+		}
+		None
+	}
+
+	fn b12_offer_verify_ops(rec: &mut Rec, rng: &mut Rng, st: &mut B12St, offer: &Offer, p: &B12OfferP, recipient: &B12Party) {
+		let orig = b12_ser(offer);
+		let other = b12_party(rng, st);
+		match p.mode {
+			1 => {
+				b12_emit_offer_verify(rec, st, "offerverify:ok:metadata", offer, None, &recipient.ek, Some(true));
+				b12_emit_offer_verify(rec, st, "offerverify:err:otherkey", offer, None, &other.ek, Some(false));
+				b12_emit_offer_verify(rec, st, "offerverify:err:as-recipient-data", offer, Some(recipient), &recipient.ek, Some(false));
+			},
+			2 => {
+				b12_emit_offer_verify(rec, st, "offerverify:keys", offer, Some(recipient), &recipient.ek, Some(true));
+				b12_emit_offer_verify(rec, st, "offerverify:err:otherkey", offer, Some(recipient), &other.ek, Some(false));
+				b12_emit_offer_verify(rec, st, "offerverify:err:othernonce", offer, Some(&other), &recipient.ek, Some(false));
+				b12_emit_offer_verify(rec, st, "offerverify:err:no-metadata", offer, None, &recipient.ek, Some(false));
+			},
+			_ => { b12_emit_offer_verify(rec, st, "offerverify:err:explicit", offer, None, &recipient.ek, Some(false)); },
+		}
+		if p.mode == 0 { return; }
+		for _ in 0..6 {
+			let (what, altered) = match b12_alter_offer(rng, &orig) { Some(x) => x, None => continue };
+			let nonce = if p.mode == 2 { Some(recipient) } else { None };
+			// the one alteration the real code accepts is KF-C18-1 (added metadata record on a path-derived offer)
+			let expect = if p.mode == 2 && what == "add-metadata" { None } else { Some(false) };
+			b12_emit_offer_verify(rec, st, &format!("offerverify:altered:{}", what.split(':').next().unwrap()), &altered, nonce, &recipient.ek, expect);
+		}
+	}
+
+	fn b12_altered_offer_probe(rec: &mut Rec, rng: &mut Rng, st: &mut B12St, offer: &Offer, p: &B12OfferP, recipient: &B12Party, payer: &B12Party) {
+		let orig = b12_ser(offer);
+		let recs = match b12_split(&orig) { Some(r) => r, None => return };
+		let mut found: Option<(String, Offer)> = None;
+		for _ in 0..12 {
+			let (what, bytes): (String, Vec<u8>) = match rng.below(7) {
+				0 | 1 => { // flip one bit inside a value
+					let with_val: Vec<&B12Tlv> = recs.iter().filter(|r| r.end > r.vstart).collect();
+					if with_val.is_empty() { continue; }
+					let r = *rng.pick(&with_val);
+					let bit = r.vstart * 8 + rng.below(((r.end - r.vstart) * 8) as u64) as usize;
+					(format!("bitflip in value of type {}", r.typ), b12_flip(&orig, bit))
+				},
+				2 => { // insert an unknown odd record inside 1..80
+					let present: BTreeSet<u64> = recs.iter().map(|r| r.typ).collect();
+					let t = 1 + 2 * rng.below(40);
+					if present.contains(&t) { continue; }
+					let pos = recs.iter().find(|r| r.typ > t).map(|r| r.start).unwrap_or(orig.len());
+					let mut b = orig[..pos].to_vec(); b.extend_from_slice(&b12_record(t, &{ let l = rng.below(20) as usize; rng.bytes(l) })); b.extend_from_slice(&orig[pos..]);
+					(format!("inserted unknown odd record type {}", t), b)
+				},
+				3 => { // append an unknown odd experimental offer record
+					let t = 1_000_000_001 + 2 * rng.below(400_000_000);
+					let mut b = orig.clone(); b.extend_from_slice(&b12_record(t, &rng.bytes(4)));
+					(format!("appended unknown odd experimental record type {}", t), b)
+				},
+				4 => { // remove a record
+					let r = rng.pick(&recs);
+					let mut b = orig[..r.start].to_vec(); b.extend_from_slice(&orig[r.end..]);
+					(format!("removed record type {}", r.typ), b)
+				},
+				_ => { // replace the value of a numeric / string field
+					let cands: Vec<&B12Tlv> = recs.iter().filter(|r| [8u64, 10, 14, 18, 20].contains(&r.typ)).collect();
+					if cands.is_empty() { continue; }
+					let r = *rng.pick(&cands);
+					let val: Vec<u8> = match r.typ { 10 | 18 => b12_string(rng, 12).into_bytes(), 8 => { let v = rng.range(1, 1_000_000); let b = v.to_be_bytes(); b[b.iter().position(|x| *x != 0).unwrap_or(7)..].to_vec() }, _ => { let v = rng.range(1, 60_000); let b = v.to_be_bytes(); b[b.iter().position(|x| *x != 0).unwrap_or(7)..].to_vec() } };
+					let mut b = orig[..r.start].to_vec(); b.extend_from_slice(&b12_record(r.typ, &val)); b.extend_from_slice(&orig[r.end..]);
+					(format!("replaced value of type {}", r.typ), b)
+				},
+			};
+			if bytes == orig { continue; }
+			st.no_panic += 1;
+			match guarded(B12Aus(|| Offer::try_from(bytes.clone()).ok())) {
+				Ok(Some(o)) => { found = Some((what, o)); break; },
+				Ok(None) => {},
+				Err(pn) => rec.oracle_fail(format!("panic in Offer::try_from on an altered offer ({}): {} bytes={}", what, pn, hex(&bytes))),
+			}
+		}
+		let (what, altered) = match found { Some(x) => x, None => return };
+		let mut rp = b12_gen_req_p(rng, &altered);
+		rp.hrn = false;
+		let pid = PaymentId(rng.bytes32());
+		let req = match guarded(B12Aus(|| b12_build_invreq(&altered, &rp, payer, pid, st))) {
+			Ok(Ok(r)) => r,
+			Ok(Err(_)) => { rec.discarded += 1; return; },
+			Err(pn) => { rec.oracle_fail(format!("panic building a request against a parsed (altered) offer ({}): {} offer={}", what, pn, hex(&b12_ser(&altered)))); return; },
+		};
+		st.verify_neg += 1;
+		let res = if p.mode == 1 { req.clone().verify_using_metadata(&recipient.ek, &st.secp) } else { req.clone().verify_using_recipient_data(recipient.nonce, &recipient.ek, &st.secp) };
+		if res.is_ok() {
+			rec.oracle_fail(format!("request against an ALTERED offer verified ({}; offer mode {}): original_offer={} altered_offer={} request={}", what, p.mode, hex(&orig), hex(&b12_ser(&altered)), hex(&b12_ser(&req))));
+		}
+		// the request itself is well signed, so it must still parse
+		if !matches!(b12_parse_invreq(b12_ser(&req)), Ok(Some(_))) { rec.oracle_fail(format!("request built against a parsed offer does not round trip: {}", hex(&b12_ser(&req)))); }
+		// labelled probe (not an oracle): the offer metadata record (type 4) is outside the HMAC-covered record set;
+		// adding one to an offer whose keys are path-derived is recorded, not judged.
+		if p.mode == 2 && !st.probes.contains_key("add_type4_metadata_to_path_derived_offer") {
+			let pos = recs.iter().find(|r| r.typ > 4).map(|r| r.start).unwrap_or(orig.len());
+			let mut b = orig[..pos].to_vec(); b.extend_from_slice(&b12_record(4, &rng.bytes(7))); b.extend_from_slice(&orig[pos..]);
+			if let Ok(Some(o4)) = guarded(B12Aus(|| Offer::try_from(b.clone()).ok())) {
+				let mut rp4 = b12_gen_req_p(rng, &o4); rp4.hrn = false;
+				if let Ok(r4) = b12_build_invreq(&o4, &rp4, payer, PaymentId(rng.bytes32()), st) {
+					let v = r4.clone().verify_using_recipient_data(recipient.nonce, &recipient.ek, &st.secp).is_ok();
+					st.probes.insert("add_type4_metadata_to_path_derived_offer".into(), format!("verify_using_recipient_data={} altered_offer={}", if v { "ok" } else { "err" }, hex(&b)));
+					// the property as stated refuses a request built against ANY altered copy of the offer: keep the
+					// oracle; the deviation is recorded in /verif/known_findings.txt under this key
+					if v { rec.oracle_fail(format!("KF-C18-1 offer metadata record (type 4) is outside the MAC-covered record set of a path-derived offer: a request built against a copy of the offer with an ADDED metadata record passes verify_using_recipient_data; original_offer={} altered_offer={}", hex(&orig), hex(&b))); }
+				}
+			}
+		}
+	}
+
+	fn b12_static_flow(rec: &mut Rec, rng: &mut Rng, st: &mut B12St, offer: &Offer, recipient: &B12Party) {
+		let ip = b12_gen_inv_p(rng, st);
+		let held: Vec<BlindedMessagePath> = (0..rng.range(1, 2)).map(|_| b12_msg_path(rng, st)).collect();
+		let obytes = b12_ser(offer);
+		// negatives first: other key / other nonce cannot produce a static invoice for this offer
+		let other_ek = ExpandedKey::new(rng.bytes32());
+		let (other_nonce, _) = b12_nonce(rng);
+		st.verify_neg += 2;
+		if StaticInvoiceBuilder::for_offer_using_derived_keys(offer, ip.paths.clone(), held.clone(), ip.created, &other_ek, recipient.nonce, &st.secp).is_ok() { rec.oracle_fail(format!("StaticInvoiceBuilder accepted another ExpandedKey: offer={}", hex(&obytes))); }
+		if other_nonce != recipient.nonce && StaticInvoiceBuilder::for_offer_using_derived_keys(offer, ip.paths.clone(), held.clone(), ip.created, &recipient.ek, other_nonce, &st.secp).is_ok() { rec.oracle_fail(format!("StaticInvoiceBuilder accepted another nonce: offer={}", hex(&obytes))); }
+		let built: Result<(StaticInvoice, [u8; 32], [u8; 32]), Bolt12SemanticError> = (|| {
+			let b = StaticInvoiceBuilder::for_offer_using_derived_keys(offer, ip.paths.clone(), held.clone(), ip.created, &recipient.ek, recipient.nonce, &st.secp)?;
+			let (u, keys) = b12_inv_common!(b, ip).build()?;
+			let th: &lightning::offers::merkle::TaggedHash = u.as_ref();
+			let (root, digest) = (th.merkle_root().to_byte_array(), *th.as_digest().as_ref());
+			if Some(keys.public_key()) != offer.issuer_signing_pubkey() { return Err(Bolt12SemanticError::InvalidSigningPubkey); }
+			let inv = u.sign(|m: &UnsignedStaticInvoice| { let t: &lightning::offers::merkle::TaggedHash = m.as_ref(); Ok(st.secp.sign_schnorr_no_aux_rand(t.as_digest(), &keys)) }).map_err(|_| Bolt12SemanticError::InvalidSigningPubkey)?;
+			Ok((inv, root, digest))
+		})();
+		let (inv, uroot, udigest) = match built {
+			Ok(x) => x,
+			Err(e) => { if offer.is_expired() && e == Bolt12SemanticError::AlreadyExpired { st.builder_rejects += 1; } else { st.b12_builder_err("static", &e); rec.discarded += 1; } return; },
+		};
+		st.b12_built("static_invoice");
+		let bytes = b12_ser(&inv);
+		let root = b12_emit_merkle(rec, "merkle:static_invoice", &bytes);
+		let digest = b12_emit_digest(rec, "digest:static_invoice", B12_TAG_STATIC, &bytes);
+		if root != Some(uroot) { rec.oracle_fail(format!("hook merkle root differs from UnsignedStaticInvoice merkle root: bytes={}", hex(&bytes))); }
+		if digest != Some(udigest) { rec.oracle_fail(format!("hook digest differs from UnsignedStaticInvoice digest: bytes={}", hex(&bytes))); }
+		if st.secp.verify_schnorr(&inv.signature(), &secp256k1::Message::from_digest(udigest), &inv.signing_pubkey().x_only_public_key().0).is_err() { rec.oracle_fail(format!("static invoice signature does not verify over the digest: bytes={}", hex(&bytes))); }
+		b12_expect(rec, inv.created_at() == ip.created, "static.created_at", &bytes);
+		b12_expect(rec, inv.relative_expiry() == ip.rel.map(|r| Duration::from_secs(r as u64)).unwrap_or(lightning::offers::static_invoice::DEFAULT_RELATIVE_EXPIRY), "static.relative_expiry", &bytes);
+		b12_expect(rec, inv.payment_paths() == &ip.paths[..], "static.payment_paths", &bytes);
+		b12_expect(rec, inv.held_htlc_available_paths() == &held[..], "static.held_htlc_available_paths", &bytes);
+		b12_expect(rec, inv.offer_message_paths() == offer.paths(), "static.offer_message_paths", &bytes);
+		b12_expect(rec, inv.fallbacks().len() == ip.fallbacks.len(), "static.fallbacks", &bytes);
+		b12_expect(rec, inv.invoice_features().supports_basic_mpp() == ip.mpp, "static.features(mpp)", &bytes);
+		b12_expect(rec, Some(inv.signing_pubkey()) == offer.issuer_signing_pubkey() && inv.issuer_signing_pubkey() == offer.issuer_signing_pubkey(), "static.signing_pubkey", &bytes);
+		b12_expect(rec, inv.amount() == offer.amount() && inv.absolute_expiry() == offer.absolute_expiry() && inv.supported_quantity() == offer.supported_quantity() && inv.chain() == offer.chains()[0] && inv.offer_id() == offer.id(), "static mirrors the offer fields", &bytes);
+		b12_roundtrip(rec, st, "static_invoice", &bytes, &b12_fp_static(&inv), &b12_parse_static);
+		b12_bitflips(rec, rng, st, "static_invoice", &bytes, &b12_parse_static);
+		if !matches!(b12_parse_invoice(bytes.clone()), Ok(None)) { rec.oracle_fail(format!("a StaticInvoice encoding is accepted (or panics) as Bolt12Invoice: bytes={}", hex(&bytes))); }
+		st.corpus.push(bytes);
+	}
+
+	// ---------------------------------------------------------------------------------------------
+	// phase 3b: refund → invoice
+	// ---------------------------------------------------------------------------------------------
+
+	struct B12RefundP { mode: u8, metadata: Vec<u8>, amount: u64, desc: Option<String>, issuer: Option<String>, expiry: Option<u64>, net: Option<Network>, qty: Option<u64>, note: Option<String>, paths: Vec<BlindedMessagePath> }
+
+	fn b12_refund_common<'a, T: secp256k1::Signing>(mut b: RefundBuilder<'a, T>, p: &B12RefundP) -> RefundBuilder<'a, T> {
+		if let Some(d) = &p.desc { b = b.description(d.clone()); }
+		if let Some(e) = p.expiry { b = b.absolute_expiry(Duration::from_secs(e)); }
+		if let Some(i) = &p.issuer { b = b.issuer(i.clone()); }
+		for path in &p.paths { b = b.path(path.clone()); }
+		if let Some(n) = p.net { b = b.chain(n); }
+		if let Some(q) = p.qty { b = b.quantity(q); }
+		if let Some(n) = &p.note { b = b.payer_note(n.clone()); }
+		b
+	}
+
+	fn b12_refund_flow(rec: &mut Rec, rng: &mut Rng, st: &mut B12St, _idx: u64) {
+		let payer = b12_party(rng, st);
+		let recipient = b12_party(rng, st);
+		let mode = rng.below(3) as u8;
+		let npaths = match mode { 0 => rng.below(3), 1 => 0, _ => rng.range(1, 3) } as usize;
+		let p = B12RefundP {
+			mode, metadata: { let l = *rng.pick(&[0u64, 1, 16, 32, 47, 48, 49, 80, 81]) as usize; rng.bytes(l) },
+			amount: match rng.below(5) { 0 => 0, 1 => 1, 2 => B12_MAX_MSAT, _ => rng.range(1, B12_MAX_MSAT) },
+			desc: if rng.chance(2, 3) { Some(b12_string(rng, 40)) } else { None }, issuer: if rng.chance(1, 3) { Some(b12_string(rng, 20)) } else { None },
+			expiry: b12_gen_expiry(rng), net: if rng.chance(1, 2) { Some(*rng.pick(&B12_NETS)) } else { None },
+			qty: if rng.chance(1, 3) { Some(*rng.pick(&[0u64, 1, 2, 1000, u64::MAX])) } else { None }, note: if rng.chance(1, 2) { Some(b12_string(rng, 40)) } else { None },
+			paths: (0..npaths).map(|_| b12_msg_path(rng, st)).collect(),
+		};
+		let pid = PaymentId(rng.bytes32());
+		// over-limit amounts are refused by both constructors
+		if rng.chance(1, 10) {
+			st.builder_rejects += 1;
+			if RefundBuilder::new(vec![1], payer.keys.public_key(), B12_MAX_MSAT + 1).is_ok() || RefundBuilder::deriving_signing_pubkey(payer.keys.public_key(), &payer.ek, payer.nonce, &st.secp, B12_MAX_MSAT + 1, pid).is_ok() { rec.oracle_fail("RefundBuilder accepted an amount above MAX_VALUE_MSAT".into()); }
+		}
+		let refund: Result<Refund, Bolt12SemanticError> = if mode == 0 {
+			RefundBuilder::new(p.metadata.clone(), payer.keys.public_key(), p.amount).and_then(|b| b12_refund_common(b, &p).build())
+		} else {
+			RefundBuilder::deriving_signing_pubkey(payer.keys.public_key(), &payer.ek, payer.nonce, &st.secp, p.amount, pid).and_then(|b| b12_refund_common(b, &p).build())
+		};
+		let refund = match refund { Ok(r) => r, Err(e) => { st.b12_builder_err("refund", &e); rec.discarded += 1; return; } };
+		st.b12_built("refund");
+		let fbytes = b12_ser(&refund);
+		b12_emit_merkle(rec, "merkle:refund", &fbytes);
+		b12_expect(rec, refund.amount_msats() == p.amount, "refund.amount_msats", &fbytes);
+		b12_expect(rec, refund.description().0 == p.desc.clone().unwrap_or_default(), "refund.description", &fbytes);
+		b12_expect(rec, refund.issuer().map(|s| s.0.to_string()) == p.issuer, "refund.issuer", &fbytes);
+		b12_expect(rec, refund.absolute_expiry() == p.expiry.map(Duration::from_secs), "refund.absolute_expiry", &fbytes);
+		b12_expect(rec, refund.chain() == b12_chain_hash(p.net.unwrap_or(Network::Bitcoin)), "refund.chain", &fbytes);
+		b12_expect(rec, refund.quantity() == p.qty, "refund.quantity", &fbytes);
+		b12_expect(rec, refund.payer_note().map(|s| s.0.to_string()) == p.note, "refund.payer_note", &fbytes);
+		b12_expect(rec, refund.paths() == &p.paths[..], "refund.paths", &fbytes);
+		match mode {
+			0 => { b12_expect(rec, refund.payer_metadata() == &p.metadata[..] && refund.payer_signing_pubkey() == payer.keys.public_key(), "refund explicit metadata / payer key", &fbytes); },
+			1 => { b12_expect(rec, refund.payer_metadata().len() == 80 && refund.payer_metadata()[32..48] == payer.nonce_bytes[..] && refund.payer_signing_pubkey() == payer.keys.public_key(), "refund derived metadata (enc‖nonce‖hmac), node id as payer key", &fbytes); },
+			_ => { b12_expect(rec, refund.payer_metadata().len() == 48 && refund.payer_metadata()[32..48] == payer.nonce_bytes[..] && refund.payer_signing_pubkey() != payer.keys.public_key(), "refund derived payer key (enc‖nonce)", &fbytes); },
+		}
+		b12_roundtrip(rec, st, "refund", &fbytes, &b12_fp_refund(&refund), &b12_parse_refund);
+		b12_str_roundtrip(rec, rng, st, "refund", &refund.to_string(), &fbytes);
+		st.corpus.push(fbytes.clone());
+		// payer metadata through the hook
+		let base_p = b12_vho::offers_base_key(&payer.ek);
+		let meta = refund.payer_metadata().to_vec();
+		if mode == 1 && meta.len() == 80 {
+			let tlv = b12_payer_records_for_hmac(&fbytes, false);
+			let mut enc = [0u8; 32]; enc.copy_from_slice(&meta[..32]);
+			if meta != b12_meta_payer(&base_p, B12_IV_REFUND_META, &enc, &payer.nonce_bytes, &tlv) { rec.oracle_fail(format!("derived refund metadata is not enc‖nonce‖HMAC(iv‖nonce‖records‖[1;16]‖[4;16]‖enc): bytes={}", hex(&fbytes))); }
+			b12_emit_mverify(rec, st, "mverify:ok:refund", true, &payer.ek, B12_IV_REFUND_META, &meta, &tlv, Some(true));
+			b12_emit_mverify(rec, st, "mverify:err:refund:iv", true, &payer.ek, B12_IV_REFUND_KEYS, &meta, &tlv, Some(false));
+			b12_emit_mverify(rec, st, "mverify:err:refund:allrecords", true, &payer.ek, B12_IV_REFUND_META, &meta, &fbytes, Some(false));
+		} else if mode == 2 && meta.len() == 48 {
+			let tlv = b12_payer_records_for_hmac(&fbytes, true);
+			let mut enc = [0u8; 32]; enc.copy_from_slice(&meta[..32]);
+			let secret = b12_secret_payer(&base_p, B12_IV_REFUND_KEYS, &enc, &payer.nonce_bytes, &tlv);
+			b12_emit_mhmac(rec, st, "mhmac:p:refund", true, &payer.ek, B12_IV_REFUND_KEYS, &meta, &tlv, &secret, Some(refund.payer_signing_pubkey()));
+		}
+		// ---- invoice for the refund
+		let ip = b12_gen_inv_p(rng, st);
+		let derived = rng.chance(1, 2);
+		let ent = rng.bytes32();
+		let built: Result<(Bolt12Invoice, Option<[u8; 32]>), Bolt12SemanticError> = (|| if derived {
+			let b = refund.respond_using_derived_keys_no_std(ip.paths.clone(), ip.hash, ip.created, &recipient.ek, &B12Entropy(ent))?;
+			Ok((b12_inv_common!(b, ip).build_and_sign(&st.secp)?, None))
+		} else {
+			let u = b12_inv_common!(refund.respond_with_no_std(ip.paths.clone(), ip.hash, recipient.keys.public_key(), ip.created)?, ip).build()?;
+			let root = u.tagged_hash().merkle_root().to_byte_array();
+			Ok((u.sign(|m: &UnsignedBolt12Invoice| Ok(st.secp.sign_schnorr_no_aux_rand(m.as_ref().as_digest(), &recipient.keys))).map_err(|_| Bolt12SemanticError::InvalidSigningPubkey)?, Some(root)))
+		})();
+		match built {
+			Ok((inv, uroot)) => {
+				if refund.is_expired() { rec.oracle_fail(format!("invoice built for an expired refund: refund={}", hex(&fbytes))); }
+				let ibytes = b12_ser(&inv);
+				b12_check_invoice(rec, rng, st, "invoice_refund", &inv, &ip, uroot);
+				b12_expect(rec, inv.is_for_refund() && !inv.is_for_offer() && inv.offer_id().is_none() && inv.offer_chains().is_none(), "invoice.is_for_refund", &ibytes);
+				b12_expect(rec, inv.amount_msats() == p.amount, "invoice(refund).amount_msats", &ibytes);
+				b12_expect(rec, derived || inv.signing_pubkey() == recipient.keys.public_key(), "invoice(refund).signing_pubkey", &ibytes);
+				b12_expect(rec, inv.payer_signing_pubkey() == refund.payer_signing_pubkey() && inv.payer_metadata() == refund.payer_metadata() && inv.quantity() == p.qty && inv.chain() == refund.chain() && inv.message_paths() == refund.paths(), "invoice mirrors the refund fields", &ibytes);
+				b12_expect(rec, inv.payer_note().map(|s| s.0.to_string()) == p.note && inv.description().map(|s| s.0.to_string()) == Some(p.desc.clone().unwrap_or_default()) && inv.absolute_expiry() == refund.absolute_expiry(), "invoice mirrors the refund strings/expiry", &ibytes);
+				b12_check_payer_verify(rec, rng, st, &inv, &payer, if p.mode == 0 { None } else { Some(pid) }, "invoice for refund");
+				b12_invoice_verify_ops(rec, rng, st, &inv, &payer, p.mode != 0, if derived { None } else { Some(&recipient.keys) });
+			},
+			Err(e) => { if refund.is_expired() && e == Bolt12SemanticError::AlreadyExpired { st.builder_rejects += 1; } else { st.b12_builder_err("invoice_refund", &e); rec.discarded += 1; } },
+		}
+	}
+
+	// ---------------------------------------------------------------------------------------------
+	// phase 4: the public parsers never panic
+	// ---------------------------------------------------------------------------------------------
+
+	fn b12_mutate(rng: &mut Rng, src: &[u8], other: &[u8]) -> Vec<u8> {
+		let mut v = src.to_vec();
+		for _ in 0..rng.range(1, 3) {
+			if v.is_empty() { v = rng.bytes(4); }
+			let n = v.len();
+			match rng.below(12) {
+				0 => { let b = rng.below(n as u64 * 8) as usize; v[b / 8] ^= 1 << (b % 8); },
+				1 => { let i = rng.below(n as u64) as usize; v[i] = *rng.pick(&[0u8, 1, 0x7f, 0x80, 0xfc, 0xfd, 0xfe, 0xff]); },
+				2 => { v.truncate(rng.below(n as u64) as usize); },
+				3 => { let l = rng.range(1, 40) as usize; v.extend_from_slice(&rng.bytes(l)); },
+				4 => { let i = rng.below(n as u64 + 1) as usize; let j = rng.below(other.len() as u64 + 1) as usize; v.truncate(i); v.extend_from_slice(&other[j..]); },
+				5 => { // tamper with a length field
+					if let Some(recs) = b12_split(&v) { if !recs.is_empty() { let r = rng.pick(&recs).clone(); let newlen = *rng.pick(&[0u64, 1, 0xfc, 0xfd, 0xffff, 0x10000, u32::MAX as u64, u64::MAX, (r.end - r.vstart) as u64 + 1]); let mut o = v[..r.lstart].to_vec(); b12_put_bigsize(&mut o, newlen); o.extend_from_slice(&v[r.vstart..]); v = o; } }
+				},
+				6 => { // non-minimal BigSize for a type or length
+					if let Some(recs) = b12_split(&v) { if !recs.is_empty() { let r = rng.pick(&recs).clone(); let mut o = v[..r.start].to_vec(); o.push(0xfd); o.extend_from_slice(&(r.typ as u16).to_be_bytes()); o.extend_from_slice(&v[r.lstart..]); v = o; } }
+				},
+				7 => { // duplicate or swap records
+					if let Some(recs) = b12_split(&v) { if recs.len() > 1 { let a = rng.pick(&recs).clone(); let b = rng.pick(&recs).clone(); let mut o = v[..a.end].to_vec(); o.extend_from_slice(&v[b.start..b.end]); o.extend_from_slice(&v[a.end..]); v = o; } }
+				},
+				8 => { // insert a random record (any type, including even unknown and signature range)
+					let t = match rng.below(5) { 0 => rng.below(256), 1 => rng.range(240, 1000), 2 => rng.range(1_000_000_000, 4_000_000_000), 3 => *rng.pick(&[0u64, 4, 16, 22, 88, 90, 160, 162, 172, 176, 236, 240]), _ => rng.next() };
+					let val = match rng.below(3) { 0 => vec![], 1 => rng.bytes(33), _ => { let l = rng.below(70) as usize; rng.bytes(l) } };
+					let r = b12_record(t, &val);
+					let pos = b12_split(&v).and_then(|recs| if recs.is_empty() { None } else { Some(rng.pick(&recs).start) }).unwrap_or(0);
+					let mut o = v[..pos].to_vec(); o.extend_from_slice(&r); o.extend_from_slice(&v[pos..]); v = o;
+				},
+				9 => { // remove a record
+					if let Some(recs) = b12_split(&v) { if !recs.is_empty() { let r = rng.pick(&recs).clone(); let mut o = v[..r.start].to_vec(); o.extend_from_slice(&v[r.end..]); v = o; } }
+				},
+				10 => { // replace a value with random bytes of the same or another length
+					if let Some(recs) = b12_split(&v) { if !recs.is_empty() { let r = rng.pick(&recs).clone(); let l = if rng.chance(1, 2) { r.end - r.vstart } else { rng.below(80) as usize }; let mut o = v[..r.start].to_vec(); o.extend_from_slice(&b12_record(r.typ, &rng.bytes(l))); o.extend_from_slice(&v[r.end..]); v = o; } }
+				},
+				_ => { let i = rng.below(n as u64) as usize; let l = rng.range(1, 8) as usize; let ins = rng.bytes(l); v.splice(i..i, ins); },
+			}
+		}
+		v
+	}
+
+	fn b12_feed_bytes(rec: &mut Rec, st: &mut B12St, input: &[u8]) {
+		macro_rules! b12_try { ($name: expr, $signed: expr, $e: expr) => { {
+			st.no_panic += 1;
+			match guarded(B12Aus(|| $e)) {
+				Ok(true) => {
+					st.no_panic_parsed_ok += 1;
+					// a signed parser may only accept what a builder produced (modulo unknown odd records in the unhashed range 241..=1000)
+					if $signed && !st.corpus_set.contains(input) {
+						let norm = b12_split(input).map(|_| b12_select(input, |t| !(241..=1000).contains(&t))).unwrap_or_default();
+						if st.corpus_set.contains(&norm) { st.sig_range_accepts += 1; } else { rec.oracle_fail(format!("mutated signed stream accepted by {}: input={}", $name, hex(input))); }
+					}
+				},
+				Ok(false) => {},
+				Err(p) => rec.oracle_fail(format!("panic in {} on arbitrary bytes: {} input={}", $name, p, hex(input))),
+			}
+		} } }
+		b12_try!("Offer::try_from", false, Offer::try_from(input.to_vec()).map(|o| { let _ = (o.to_string(), format!("{:?}", o), o.id(), o.is_expired(), o.expects_quantity()); }).is_ok());
+		b12_try!("InvoiceRequest::try_from", true, InvoiceRequest::try_from(input.to_vec()).map(|o| { let _ = (format!("{:?}", o), o.amount_msats()); }).is_ok());
+		b12_try!("Bolt12Invoice::try_from", true, Bolt12Invoice::try_from(input.to_vec()).map(|o| { let _ = (format!("{:?}", o), o.fallbacks(), o.is_expired()); }).is_ok());
+		b12_try!("Refund::try_from", false, Refund::try_from(input.to_vec()).map(|o| { let _ = (o.to_string(), format!("{:?}", o), o.is_expired()); }).is_ok());
+		b12_try!("StaticInvoice::try_from", true, StaticInvoice::try_from(input.to_vec()).map(|o| { let _ = (format!("{:?}", o), o.fallbacks(), o.is_expired()); }).is_ok());
+		b12_try!("UnsignedInvoiceRequest::try_from", false, UnsignedInvoiceRequest::try_from(input.to_vec()).map(|o| { let _ = (o.amount_msats(), o.tagged_hash().merkle_root()); }).is_ok());
+		b12_try!("UnsignedBolt12Invoice::try_from", false, UnsignedBolt12Invoice::try_from(input.to_vec()).map(|o| { let _ = (o.fallbacks(), o.amount_msats(), o.tagged_hash().merkle_root()); }).is_ok());
+	}
+
+	fn b12_feed_str(rec: &mut Rec, st: &mut B12St, s: &str) {
+		st.no_panic += 2;
+		match guarded(B12Aus(|| s.parse::<Offer>().map(|o| { let _ = o.to_string(); }).is_ok())) { Ok(ok) => if ok { st.no_panic_parsed_ok += 1; }, Err(p) => rec.oracle_fail(format!("panic in str::parse::<Offer>: {} input={:?}", p, s)) }
+		match guarded(B12Aus(|| s.parse::<Refund>().map(|o| { let _ = o.to_string(); }).is_ok())) { Ok(ok) => if ok { st.no_panic_parsed_ok += 1; }, Err(p) => rec.oracle_fail(format!("panic in str::parse::<Refund>: {} input={:?}", p, s)) }
+	}
+
+	fn b12_phase_fuzz(rec: &mut Rec, rng: &mut Rng, st: &mut B12St, args: &Args) {
+		const B32: &[u8] = b"qpzry9x8gf2tvdw0s3jn54khce6mua7l";
+		let n_bytes = (if args.thorough { 60_000 } else { 6_000 }) * args.scale;
+		let corpus = std::mem::take(&mut st.corpus);
+		st.corpus_set = corpus.iter().cloned().collect();
+		for i in 0..n_bytes {
+			let input = if corpus.is_empty() || i % 5 == 0 {
+				match rng.below(4) { 0 => { let l = rng.below(12) as usize; rng.bytes(l) }, 1 => { let l = rng.below(300) as usize; rng.bytes(l) }, 2 => { let (a, b) = (rng.range(1, 6) as usize, rng.below(2) as usize); b12_synth_stream(rng, a, b, 40) }, _ => { let n = rng.range(1, 8); let mut v = vec![]; for _ in 0..n { v.extend_from_slice(&b12_record(*rng.pick(&[0u64, 2, 4, 6, 8, 10, 12, 14, 16, 18, 20, 22, 80, 82, 84, 86, 88, 89, 90, 91, 160, 162, 164, 166, 168, 170, 172, 174, 176, 236, 240]), &{ let l = *rng.pick(&[0u64, 1, 3, 8, 32, 33, 64]) as usize; rng.bytes(l) })); } v } }
+			} else {
+				let a = rng.pick(&corpus); let b = rng.pick(&corpus);
+				b12_mutate(rng, a, b)
+			};
+			b12_feed_bytes(rec, st, &input);
+		}
+		let n_str = (if args.thorough { 50_000 } else { 5_000 }) * args.scale;
+		let strs = std::mem::take(&mut st.str_corpus);
+		for _ in 0..n_str {
+			let s: String = match rng.below(10) {
+				0 => (0..rng.below(80)).map(|_| (rng.below(128) as u8) as char).collect(),
+				1 => { let hrp = *rng.pick(&["lno1", "lnr1", "lni1", "LNO1", "lno", "lno11", "1", ""]); let body: String = (0..rng.below(120)).map(|_| *rng.pick(B32) as char).collect(); format!("{}{}", hrp, body) },
+				2 => b12_string(rng, 60),
+				_ if strs.is_empty() => "lno1".to_string(),
+				3 => { let mut s = rng.pick(&strs).clone(); let cut = rng.below(s.len() as u64 + 1) as usize; s.truncate(cut); s },
+				4 => { // '+' and whitespace at arbitrary places (also leading / trailing / doubled)
+					let mut s = rng.pick(&strs).clone();
+					for _ in 0..rng.range(1, 4) { let mut pos = rng.below(s.len() as u64 + 1) as usize; while !s.is_char_boundary(pos) { pos -= 1; } s.insert_str(pos, *rng.pick(&["+", "+ ", " +", "++", "+\n", "\n", " ", "+\t\r\n ", "+\u{a0}"])); }
+					s
+				},
+				5 => { let s = rng.pick(&strs); s.chars().map(|c| if rng.chance(1, 2) { c.to_ascii_uppercase() } else { c }).collect() },
+				6 => { let mut b = rng.pick(&strs).clone().into_bytes(); let i = rng.below(b.len() as u64) as usize; b[i] = *rng.pick(B32); String::from_utf8(b).unwrap_or_default() },
+				7 => { let mut b = rng.pick(&strs).clone().into_bytes(); let i = rng.below(b.len() as u64) as usize; b[i] = rng.below(128) as u8; String::from_utf8_lossy(&b).into_owned() },
+				8 => { let mut s = rng.pick(&strs).clone(); for _ in 0..rng.range(1, 6) { s.push(*rng.pick(B32) as char); } s },
+				_ => { let a = rng.pick(&strs); let b = rng.pick(&strs); let i = rng.below(a.len() as u64) as usize; let j = rng.below(b.len() as u64) as usize; format!("{}{}", &a[..i], &b[j..]) },
+			};
+			b12_feed_str(rec, st, &s);
+		}
+		st.corpus = corpus; st.str_corpus = strs;
+	}
+
+	// ---------------------------------------------------------------------------------------------
+	// entry point
+	// ---------------------------------------------------------------------------------------------
+
+	pub fn run_b12(args: &Args) {
+		let mut rec = Rec::new(&args.out, "c18b12");
+		let mut rng = Rng::new(args.seed);
+		let secp = Secp256k1::new();
+		let pks: Vec<PublicKey> = (0..48).map(|_| b12_keypair(&mut rng, &secp).public_key()).collect();
+		let dummy_pk = b12_keypair(&mut rng, &secp).public_key();
+		let mut st = B12St {
+			secp, thorough: args.thorough, pks, dummy_pk, bitflips: 0, bitflip_full_sweeps: 0, verify_neg: 0, verify_pos: 0, roundtrips: 0, no_panic: 0, no_panic_parsed_ok: 0,
+			builder_rejects: 0, builder_errs: BTreeMap::new(), built: BTreeMap::new(), sweeps_left: BTreeMap::new(), probes: BTreeMap::new(), corpus: vec![], corpus_set: Default::default(), sig_range_accepts: 0, str_corpus: vec![],
+		};
+		// BOLT-12 merkle test vectors through the hook and the reference (sanity of both)
+		for (h, want) in [("010203e8", "b013756c8fee86503a0b4abdab4cddeb1af5d344ca6fc2fa8b6c08938caa6f93"), ("010203e802080000010000020003", "c3774abbf4815aa54ccaa026bff6581f01f3be5fe814c620a252534f434bc0d1")] {
+			let got = b12_emit_merkle(&mut rec, "merkle:vector", &unhex(h));
+			if got.map(|g| hex(&g)) != Some(want.to_string()) { rec.oracle_fail(format!("BOLT-12 merkle test vector {} gives {:?}", h, got.map(|g| hex(&g)))); }
+		}
+		b12_phase_synth_merkle(&mut rec, &mut rng, args);
+		b12_phase_synth_meta(&mut rec, &mut rng, &mut st, args);
+		let scenarios = (if args.thorough { 1200 } else { 120 }) * args.scale;
+		for i in 0..scenarios {
+			if let Err(p) = guarded(B12Aus(|| b12_offer_flow(&mut rec, &mut rng, &mut st, i))) { rec.oracle_fail(format!("panic in the offer/request/invoice builder flow (scenario {} seed {}): {}", i, args.seed, p)); }
+			if let Err(p) = guarded(B12Aus(|| b12_refund_flow(&mut rec, &mut rng, &mut st, i))) { rec.oracle_fail(format!("panic in the refund/invoice builder flow (scenario {} seed {}): {}", i, args.seed, p)); }
+		}
+		// builders refuse amounts outside 1..=MAX_VALUE_MSAT
+		for a in [0u64, B12_MAX_MSAT + 1, u64::MAX] {
+			st.builder_rejects += 1;
+			if OfferBuilder::new(dummy_pk).amount_msats(a).build() != Err(Bolt12SemanticError::InvalidAmount) { rec.oracle_fail(format!("OfferBuilder accepted amount_msats={}", a)); }
+		}
+		b12_phase_fuzz(&mut rec, &mut rng, &mut st, args);
+		rec.notes.insert("rule".into(), "PRNG-driven: synthetic well-formed TLV streams (1..40 ascending records, all BigSize widths, optional signature-range records) for merkle/metadata hooks with harness-side HMAC construction and mutants; real Offer/InvoiceRequest/Bolt12Invoice/Refund/StaticInvoice objects built through the public builders over explicit, metadata-derived and path-derived key modes; every op line is distinct by its hex payload".into());
+		rec.notes.insert("oracle_bitflips".into(), st.bitflips.to_string());
+		rec.notes.insert("oracle_bitflip_full_sweeps".into(), st.bitflip_full_sweeps.to_string());
+		rec.notes.insert("oracle_verify_neg".into(), st.verify_neg.to_string());
+		rec.notes.insert("oracle_verify_pos".into(), st.verify_pos.to_string());
+		rec.notes.insert("oracle_roundtrips".into(), st.roundtrips.to_string());
+		rec.notes.insert("oracle_noPanic".into(), st.no_panic.to_string());
+		rec.notes.insert("noPanic_inputs_parsed_ok".into(), st.no_panic_parsed_ok.to_string());
+		rec.notes.insert("noPanic_signed_accepts_with_extra_241_1000_record".into(), st.sig_range_accepts.to_string());
+		rec.notes.insert("oracle_builder_rejects".into(), st.builder_rejects.to_string());
+		rec.notes.insert("built".into(), st.built.iter().map(|(k, v)| format!("{}={}", k, v)).collect::<Vec<_>>().join(" "));
+		rec.notes.insert("builder_errors".into(), st.builder_errs.iter().map(|(k, v)| format!("{}={}", k, v)).collect::<Vec<_>>().join(" "));
+		for (k, v) in st.probes.iter() { rec.notes.insert(format!("probe_{}", k), v.clone()); }
+		rec.finish();
+	}
+
 }
 
 fn main() {
 	let args = parse_args("c18b11");
 	match args.model.as_str() {
 		"c18b11" => run_b11(&args),
-		"c18b12" => run_b12(&args),
+		"c18b12" => b12::run_b12(&args),
 		m => { eprintln!("unknown model {}", m); std::process::exit(2); },
 	}
 }
